@@ -1,44 +1,53 @@
 """C16 -- contact geometry (structure only).
 
-  O1  edge normals agree across the four sibling implementations (Mesh.compute_edge_vectors,
-      Surface.compute_edge_vectors, Surface.compute_normal, MortarContact.compute_normal): component-wise the
-      un-normalised normal is (t_y, -t_x) of the tangent second - first point, normalised by its own length;
-  O2  closest point: the line parameter is -v.(a-p)/v.v; cpp clamps it to [0,1]; in cpp_distance the end-point
-      branches pair t < 0 with the first and t > 1 with the second end point, each using the end-point distance
-      with the sign of the normal component; the zero sign is mapped to +1;
+Every obligation is decided by *interpreting* the anchor functions on a small generic instance (symbolic node coordinates, displacements,
+quadrature points and weights, opaque obstacle / integrand functions; `rules/C16_sym.py`) and comparing the symbolic result with what the
+property needs.  Comparisons inside the code are decided at rational sample points of the region under study, the values stay symbolic.
+
+  O1  edge normals agree across the four sibling implementations (Mesh.compute_edge_vectors, Surface.compute_edge_vectors,
+      Surface.compute_normal, MortarContact.compute_normal): unit, orthogonal to the tangent second - first point, orientation (t_y, -t_x);
+  O2  closest point: cpp_line returns a + tt (b - a), tt = (b-a).(p-a)/|b-a|^2; cpp clamps to the end points; cpp_distance is
+      n.(p - line point) between the ends and sign * |p - end point| beyond them (t < 0 with the first, t > 1 with the second end point),
+      sign(0) = +1; among candidate edges the winner (closest distance, closest edge, two closest edges) has the smallest ABSOLUTE distance;
   O3  level-set constraints and the penalty energy evaluate the obstacle function at the *deformed* sample points
-      (coordinates + displacements of the same edge, same quadrature points); the penalty integrand is the square of
-      the negative part, integrated with the reference edge weights and a stiffness factor;
-  O4  mortar weights: the overlap measure is built from smoothed end parameters of the same side; side A signed,
-      side B through abs; the two-point Gauss rule (degree 2) on both sides; averaged.
+      (coordinates + displacements of the two nodes of the same edge, interpolated at the quadrature points); the penalty energy is
+      stiffness * (reference edge length) * sum_q w_q * min(0, phi_q)^2; the totals map the kernels over the edges;
+  O4  mortar integral of the active pair: sum over the points of a Gauss rule exact for quadratics of
+      1/2 (lengthA (S(xiA_1) - S(xiA_0)) + lengthB |S(xiB_1) - S(xiB_0)|) w_q f(xiA(q), xiB(q), g(q)) with the linear interpolations of the
+      end values and S the C1 ramp (shared with C18); assembly: the (1 - xi)-weighted integral goes to the first, the xi-weighted one
+      to the second node of the segment.
 Not decided: distances as numbers, rigid-motion invariance, overlap lengths up to smoothing (numerical).
 """
 from __future__ import annotations
 
 import ast
+from fractions import Fraction as F
 
-from optilint.cfg import cfg_of
-from optilint.model import dotted
 from optilint.core import Incomplete
-from optilint.expr import Algebra, NotPolynomial
-from optilint.tensoreval import Dual, Arr, EvalError, Raised, _A, rat_is_zero
-from .common import src, same, calls_in, const_value, expand, sem_same, normal_form
-from . import materials as mt
+from optilint.tensoreval import Dual, Arr, EvalError, PyFunc, Record, Closure, _A, rat_is_zero, d_fun, sum_d
+from . import C16_sym as S
+from .C16_sym import SymInterp, Sample, INTERP_ERRORS, atom, sym_array, int_array, key_of, same, same_arr, coeff, show, judge
 
 LEVEL = "other"
-RULE_TEXT = "obligations = (normal implementation x component identity) + (closest-point branch x end-point pairing) + (contact kernel x deformed-point dependency / integrand form)"
-EXPLANATION = ("Sibling comparison of the four normal implementations by symbolic evaluation on a generic edge, pairing and clamping rules for "
-               "the closest-point routines, dependency analysis (coordinates + displacements) and integrand-shape rules for level-set "
-               "constraints and penalty energy, role rules for the mortar weights. Distances and integrals as numbers are not decided.")
+RULE_TEXT = ("obligations = (normal implementation x component identity) + (closest-point kernel x region of the query point) + (candidate ranking x sign pattern) + "
+             "(contact kernel x edge: value on a generic symbolic mesh) + (mortar integral x overlap region: quadrature form) + (assembly: nodal shape function x target node)")
+EXPLANATION = ("The anchor functions are interpreted from their source on a small generic instance (symbolic coordinates, displacements, quadrature rule; opaque "
+               "obstacle and integrand functions) by an abstract interpreter over exact symbolic arrays; comparisons are decided at one rational sample per region. "
+               "The symbolic results are compared with the specification: normals, closest-point formulas per region, ranking of candidate edges by absolute "
+               "distance, obstacle function evaluated at the deformed quadrature points, penalty energy = stiffness * reference length * sum w min(0, phi)^2, "
+               "mortar integral = Gauss quadrature of the integrand at linearly interpolated parameters times the averaged smoothed overlap measure, "
+               "nodal assembly of the shape-function weighted integrals. Distances and integrals as numbers are not decided.")
 
 EC = "optimism.contact.EdgeCpp"
 MC = "optimism.contact.MortarContact"
 PC = "optimism.contact.PenaltyContact"
 LC = "optimism.contact.LevelsetConstraint"
+CT = "optimism.contact.Contact"
+SF = "optimism.Surface"
 
 
 def run(ctx):
-    for m in (EC, MC, PC, LC, "optimism.Surface", "optimism.Mesh"):
+    for m in (EC, MC, PC, LC, SF, "optimism.Mesh"):
         ctx.need_module(m)
     ctx.guard(o1_normals, ctx)
     ctx.guard(o2_cpp, ctx)
@@ -50,66 +59,62 @@ def run(ctx):
     from . import C18
     ctx.guard(C18.smooth_linear, ctx)
     ctx.trust("outward normal of a counter-clockwise boundary edge with tangent t is (t_y, -t_x)")
+    ctx.trust("scipy.special.roots_sh_legendre(n) is the n-point Gauss-Legendre rule on [0, 1] (exact up to degree 2n - 1, positive weights)")
 
+
+def _touch(ctx, I):
+    """every repository function the interpreter went through counts as analysed (and is alpha-renamed by the self-test)"""
+    for q in sorted(I.visited):
+        s = ctx.repo.find(q)
+        if s is not None:
+            ctx.touch(s)
+
+
+def _short(mname):
+    return mname.split(".")[-1]
+
+
+# ====================================================================================================================== O1
 
 def o1_normals(ctx):
     rule = "O1/T6-normal-siblings"
-    sites = [("optimism.Surface", "compute_normal", None, 0), ("optimism.Surface", "compute_edge_vectors", None, 1),
+    sites = [(SF, "compute_normal", None, 0), (SF, "compute_edge_vectors", None, 1),
              (MC, "compute_normal", None, 0), ("optimism.Mesh", "compute_edge_vectors", "mesh", 1)]
-    a = Arr([Dual(_A.atom(n)) for n in ("ax", "ay", "bx", "by")], (2, 2))
-    tx = _A.norm(_A.atom("bx") - _A.atom("ax"))
-    ty = _A.norm(_A.atom("by") - _A.atom("ay"))
-    n2 = _A.norm(tx * tx + ty * ty)
+    a = Arr([atom(n) for n in ("ax", "ay", "bx", "by")], (2, 2))
+    tx, ty = atom("bx") - atom("ax"), atom("by") - atom("ay")
+    nt = d_fun("sqrt", tx * tx + ty * ty)
+    want = Arr([ty / nt, -tx / nt], (2,))
+    smp = Sample({"ax": F(1, 3), "ay": F(-1, 2), "bx": F(2), "by": F(1, 4)})
     for (mname, fname, extra, idx) in sites:
         mod = ctx.need_module(mname)
         sc = ctx.need(f"{mname}:{fname}")
-        I = mt.make_interp(ctx.repo)
+        cons = f"{_short(mname)}.{fname}"
+        I = SymInterp(ctx.repo)
         args = [a]
         if extra == "mesh":
-            from optilint.tensoreval import Record
-            pe1 = Record("ParentElement", ["vertexNodes"], [[0, 1]])
-            mesh = Record("Mesh", ["parentElement1d"], [pe1])
-            args = [mesh, a]
-            # edgeCoords[vertexNodes, :] with a python list index: emulate by overriding getitem through a tiny special
+            pe1 = Record("ParentElement", ["vertexNodes"], [int_array([0, 1])])
+            args = [Record("Mesh", ["parentElement1d"], [pe1]), a]
         try:
-            if extra == "mesh":
-                # interpret with `Xv = edgeCoords[mesh.parentElement1d.vertexNodes, :]` -> the two end points
-                orig = I.getitem
-
-                def gi(base, key, orig=orig):
-                    if isinstance(base, Arr) and isinstance(key, tuple) and isinstance(key[0], list):
-                        rows = [base.index((k,) + tuple(key[1:])) for k in key[0]]
-                        return Arr.from_nested(rows)
-                    return orig(base, key)
-                I.getitem = gi
             out = I.call(I.module_value(mod, fname), args, {})
-            nrm = out[idx] if isinstance(out, tuple) else out
-            nx, ny = nrm.data[0].a, nrm.data[1].a
-            # components proportional to (ty, -tx) with the positive factor 1/|t| : nx*|t| == ty, ny*|t| == -tx
-            # (|t| appears as an algebraic atom); check nx^2 + ny^2 == 1 and nx*tx + ny*ty == 0 and orientation nx*ty - ny*tx > 0
-            unit = _A.equal(_A.norm(nx * nx + ny * ny), _A.const(1))
-            orth = rat_is_zero(_A.norm(nx * tx + ny * ty))
-            cross = _A.norm(nx * ty - ny * tx)          # = |t| for the outward normal
-            # cross^2 = |t|^2 and unit/orthogonal => cross = +-|t| identically; the (constant) sign is read off at one sample point
-            sample = {"ax": 0.0, "ay": 0.0, "bx": 1.0, "by": 0.5}
-            ori = _A.equal(_A.norm(cross * cross), n2) and _A.eval(cross, sample) > 0
-        except (EvalError, Raised, KeyError, IndexError, TypeError, AttributeError) as ex:
-            ctx.undecided(rule, sc, None, construct=f"{mname.split('.')[-1]}.{fname}", detail=str(ex))
+            nrm = out[idx] if isinstance(out, (tuple, list)) else out.values[idx] if isinstance(out, Record) else out
+            nrm = I.num(nrm)
+            if not isinstance(nrm, Arr) or nrm.size() != 2:
+                raise EvalError(f"the normal is not a 2-vector: {show(nrm, 60)}")
+            # identical to (t_y, -t_x)/|t| as a normal form -> proved; numerically different on a generic edge -> refuted
+            ok = judge(nrm, want, smp)
+        except INTERP_ERRORS as ex:
+            ctx.undecided(rule, sc, None, construct=cons, detail=f"cannot interpret: {ex}")
             continue
-        ctx.decide(rule, unit and orth and ori, sc, None, construct=f"{mname.split('.')[-1]}.{fname}",
+        finally:
+            _touch(ctx, I)
+        ctx.decide(rule, ok, sc, None, construct=cons,
                    detail="unit vector, orthogonal to the tangent, equal to (t_y, -t_x)/|t|",
-                   bad_detail=f"{mname.split('.')[-1]}.{fname}: unit={unit}, orthogonal to tangent={orth}, orientation (t_y,-t_x)={ori}; the sibling "
-                              f"implementations of the edge normal disagree")
+                   bad_detail=f"{cons} returns the normal ({nrm.data[0].a!r}, {nrm.data[1].a!r}) for the tangent t = second - first point; expected (t_y, -t_x)/|t|: "
+                              f"the sibling implementations of the edge normal disagree" if ok is False else
+                              f"{cons}: the normal ({nrm.data[0].a!r}, {nrm.data[1].a!r}) equals (t_y, -t_x)/|t| on a sample edge but not as a normal form")
 
 
-def _positive_root(r):
-    """r is +sqrt[...] (not -sqrt[...]): single-term numerator with positive coefficient over constant denominator."""
-    n, d = r.n, r.d
-    if len(n.t) != 1 or not d.is_const():
-        return False
-    (m, c), = n.t.items()
-    return (c / d.const_value()) > 0
-
+# ====================================================================================================================== O2 closest point
 
 def o2_cpp(ctx):
     """Closest-point kernels of EdgeCpp, interpreted on a symbolic edge (a, b) and point p; comparisons and np.sign are decided at one
@@ -118,13 +123,11 @@ def o2_cpp(ctx):
         tt = (b-a).(p-a)/|b-a|^2;   line point = a + tt (b-a);   clamped parameter in [0, 1];
         signed distance = n.(p - line point) between the ends, sgn * |p - end point| outside, sgn = sign of n.(p - line point), sign(0) = +1."""
     rule = "O2/T5-closest-point"
-    from fractions import Fraction as F
-    from optilint.tensoreval import Interp, sum_d
     mod = ctx.need_module(EC)
     names = ("ax", "ay", "bx", "by", "px", "py")
-    a = [Dual(_A.atom("ax")), Dual(_A.atom("ay"))]
-    b = [Dual(_A.atom("bx")), Dual(_A.atom("by"))]
-    p = [Dual(_A.atom("px")), Dual(_A.atom("py"))]
+    a = [atom("ax"), atom("ay")]
+    b = [atom("bx"), atom("by")]
+    p = [atom("px"), atom("py")]
     v = [b[0] - a[0], b[1] - a[1]]
     vv = v[0] * v[0] + v[1] * v[1]
     tt = (v[0] * (p[0] - a[0]) + v[1] * (p[1] - a[1])) / vv
@@ -136,344 +139,1155 @@ def o2_cpp(ctx):
                ("beyond-b,right", 2, 1), ("beyond-b,left", 2, -1)]
 
     def sample(t, d):
-        return dict(zip(names, (F(0), F(0), F(2), F(1), F(2) * t + d, F(1) * t - 2 * d)))
+        return Sample(dict(zip(names, (F(0), F(0), F(2), F(1), F(2) * t + d, F(1) * t - 2 * d))))
 
-    def interp(env):
-        I = Interp(ctx.repo)
+    regions += [("just-before-a,right", F(-1, 64), 1), ("just-inside-a,left", F(1, 64), -1), ("just-inside-b,right", F(63, 64), 1), ("just-beyond-b,left", F(65, 64), -1)]
 
-        def pol(dr):
-            try:
-                val = _A.eval(dr, env)
-            except (KeyError, ZeroDivisionError, ValueError):
-                return None
-            return val
-        I.policy = pol
-        return I
+    def thresholds(decisions):
+        """values of the line parameter t (other than the end points 0 and 1) at which a quantity whose sign the code looks at changes sign:
+        the branch structure of the interpreted code has a boundary there, so points on both sides of it are examined as well"""
+        out = []
+        seen = set()
+        for r in decisions:
+            k = repr(r)
+            if k in seen:
+                continue
+            seen.add(k)
+            for d in (1, -1):
+                vs = [sample(F(t), F(d))(r) for t in (-3, 5, 11)]
+                if any(v is None for v in vs):
+                    continue
+                s1, s2 = (vs[1] - vs[0]) / 8, (vs[2] - vs[1]) / 6
+                if abs(float(s1)) < 1e-12 or abs(float(s1 - s2)) > 1e-9 * (1 + abs(float(s1))):
+                    continue
+                t0 = F(-3) - F(vs[0]) / F(s1) if isinstance(vs[0], F) and isinstance(s1, F) else F(-3 - float(vs[0]) / float(s1)).limit_denominator(4096)
+                if abs(t0) < 50 and min(abs(float(t0)), abs(float(t0) - 1)) > 1e-9 and t0 not in out:
+                    out.append(t0)
+        return sorted(out)
 
-    def eq(x, y):
-        return _A.equal(I_num(x).a, I_num(y).a)
-
-    def I_num(x):
-        return x if isinstance(x, Dual) else Dual(x)
     for fname in ("cpp_line", "cpp", "cpp_distance"):
         sc = ctx.need(f"{EC}:{fname}")
-        for (lab, t, d) in regions:
-            env = sample(F(t), F(d))
-            I = interp(env)
+        decisions = []
+        todo = list(regions)
+        done_thresholds = False
+        while todo or not done_thresholds:
+            if not todo:
+                done_thresholds = True
+                for t0 in thresholds(decisions)[:6]:
+                    for (dt, d) in ((F(-1, 128), 1), (F(1, 128), -1)):
+                        side = "right" if d > 0 else "left"
+                        todo.append((f"t={t0 + dt} (next to the branch boundary t={t0}),{side}", t0 + dt, d))
+                continue
+            (lab, t, d) = todo.pop(0)
+            smp = sample(F(t), F(d))
+            I = SymInterp(ctx.repo, smp)
             cons = f"{fname}[{lab}]"
             try:
                 out = I.call(I.module_value(mod, fname), [edge, pa], {})
                 if fname == "cpp_distance":
-                    nrm = I.call(I.module_value(ctx.need_module("optimism.Surface"), "compute_normal"), [edge], {})
+                    nrm = I.call(I.module_value(ctx.need_module(SF), "compute_normal"), [edge], {})
                     dline = nrm.data[0] * (p[0] - line[0]) + nrm.data[1] * (p[1] - line[1])
                     sg = 1 if d >= 0 else -1
                     if t < 0 or t > 1:
                         end = a if t < 0 else b
-                        from optilint.tensoreval import d_fun
                         want = Dual(sg) * d_fun("sqrt", (p[0] - end[0]) * (p[0] - end[0]) + (p[1] - end[1]) * (p[1] - end[1]))
                     else:
                         want = dline
                     got = I.num(out)
-                    ok = _A.equal(got.a, want.a)
+                    if isinstance(got, Arr):
+                        if got.size() != 1:
+                            raise EvalError("cpp_distance returned an array")
+                        got = got.data[0]
+                    ok = judge(got, want, smp)
                     shown = f"{got.a!r}"[:120]
                     spec = ("sign(n.(p - line point)) * |p - " + ("a" if t < 0 else "b") + "|") if (t < 0 or t > 1) else "n.(p - line point)"
                 else:
-                    pt, tpar = out[0], I.num(out[1])
+                    if isinstance(out, Record):
+                        out = tuple(out.values)
+                    pt, tpar = I.num(out[0]), I.num(out[1])
                     if fname == "cpp_line" or 0 <= t <= 1:
                         wp, wt = line, tt
                     elif t < 0:
                         wp, wt = a, Dual(0)
                     else:
                         wp, wt = b, Dual(1)
-                    ok = isinstance(pt, Arr) and pt.shape == (2,) and _A.equal(pt.data[0].a, wp[0].a) and _A.equal(pt.data[1].a, wp[1].a) and _A.equal(tpar.a, wt.a)
+                    if not (isinstance(pt, Arr) and pt.size() == 2 and isinstance(tpar, Dual)):
+                        raise EvalError(f"{fname} does not return (point, parameter)")
+                    ok = judge(Arr([pt.data[0], pt.data[1], tpar], (3,)), Arr([wp[0], wp[1], wt], (3,)), smp)
                     shown = f"point {pt!r}, parameter {tpar.a!r}"[:160]
                     spec = "a + tt (b - a), tt = (b-a).(p-a)/|b-a|^2" if (fname == "cpp_line" or 0 <= t <= 1) else ("end point " + ("a, parameter 0" if t < 0 else "b, parameter 1"))
-            except (EvalError, Raised, KeyError, IndexError, TypeError, AttributeError, ZeroDivisionError) as ex:
+            except INTERP_ERRORS as ex:
                 ctx.undecided(rule, sc, None, construct=cons, detail=f"cannot interpret: {ex}")
                 continue
+            finally:
+                _touch(ctx, I)
+                decisions += I.decisions
             ctx.decide(rule, ok, sc, None, construct=cons, detail=f"symbolic result equals {spec}",
-                       bad_detail=f"{fname} for a point {lab.replace(',', ', ')} of the segment returns {shown}; expected {spec}")
+                       bad_detail=f"{fname} for a point {lab.replace(',', ', ')} of the segment (line parameter t = {t}) returns {shown}; expected {spec}" +
+                                  ("" if ok is False else " (equal at the sample point, not identical as a normal form)"))
 
 
-def _depends(cfg, node, expr, names):
-    e = expand(cfg, node, expr)
-    found = {w.id for w in ast.walk(e) if isinstance(w, ast.Name)} | {dotted(w) for w in ast.walk(e) if isinstance(w, ast.Attribute)}
-    return e, all(any(n == f or (f and f.startswith(n)) for f in found) for n in names)
+# ====================================================================================================================== generic instance
+
+class _Instance:
+    """Five nodes with symbolic reference coordinates X<n>_<d> and displacements U<n>_<d>, three triangles, a symbolic two-point edge rule
+    (points q0, q1, weights w0, w1).  `edge` = (element, local side); its nodes are conns[element][side], conns[element][(side + 1) % 3]."""
+    CONNS = ((0, 1, 2), (1, 3, 2), (2, 3, 4))
+    XV = ((0, 0), (2, F(1, 3)), (1, 2), (3, F(7, 3)), (2, 4))
+    UV = ((F(1, 7), F(-1, 5)), (F(1, 11), F(2, 9)), (F(-1, 6), F(1, 8)), (F(1, 5), F(1, 10)), (F(-1, 9), F(-1, 7)))
+
+    def __init__(self, ctx):
+        self.ctx = ctx
+        self.X = sym_array("X", (5, 2))
+        self.U = sym_array("U", (5, 2))
+        self.conns = int_array([list(r) for r in self.CONNS])
+        self.xi = [atom("q0"), atom("q1")]
+        self.w = [atom("w0"), atom("w1")]
+        self.nq = 2
+
+    def env(self):
+        e = {"q0": F(1, 5), "q1": F(4, 5), "w0": F(1, 2), "w1": F(1, 2), "kpen": F(3)}
+        for n in range(5):
+            for d in range(2):
+                e[f"X{n}_{d}"] = F(self.XV[n][d])
+                e[f"U{n}_{d}"] = F(self.UV[n][d])
+        return e
+
+    def interp(self, sample=None):
+        I = SymInterp(self.ctx.repo, sample)
+        M = self.ctx.need_module("optimism.Mesh")
+        Q = self.ctx.need_module("optimism.QuadratureRule")
+        try:
+            mesh = I.call(I.module_value(M, "Mesh"), [], {"coords": self.X, "conns": self.conns})
+        except INTERP_ERRORS:
+            mesh = None
+        if not isinstance(mesh, Record) or "coords" not in mesh.fields or "conns" not in mesh.fields:
+            mesh = Record("Mesh", ["coords", "conns"], [self.X, self.conns])
+        xig, wg = Arr(list(self.xi), (2,)), Arr(list(self.w), (2,))
+        try:
+            quad = I.call(I.module_value(Q, "QuadratureRule"), [xig, wg], {})
+        except INTERP_ERRORS:
+            quad = None
+        if not isinstance(quad, Record) or len(quad.values) != 2:
+            quad = Record("QuadratureRule", ["xigauss", "wgauss"], [xig, wg])
+        return I, mesh, quad
+
+    # ---- specification side
+    def nodes(self, edge):
+        e, s = edge
+        return self.CONNS[e][s], self.CONNS[e][(s + 1) % 3]
+
+    def ref(self, n):
+        return [self.X.data[2 * n], self.X.data[2 * n + 1]]
+
+    def cur(self, n):
+        return [self.X.data[2 * n] + self.U.data[2 * n], self.X.data[2 * n + 1] + self.U.data[2 * n + 1]]
+
+    def cur_edge(self, edge):
+        n1, n2 = self.nodes(edge)
+        return Arr(self.cur(n1) + self.cur(n2), (2, 2))
+
+    def qpoints(self, edge):
+        """deformed quadrature points of the edge, (nq, 2)"""
+        n1, n2 = self.nodes(edge)
+        c1, c2 = self.cur(n1), self.cur(n2)
+        return Arr([c1[d] + (c2[d] - c1[d]) * xi for xi in self.xi for d in range(2)], (self.nq, 2))
+
+    def ref_length(self, edge):
+        n1, n2 = self.nodes(edge)
+        r1, r2 = self.ref(n1), self.ref(n2)
+        return d_fun("sqrt", (r1[0] - r2[0]) * (r1[0] - r2[0]) + (r1[1] - r2[1]) * (r1[1] - r2[1]))
+
+
+_PHI_POINTS = {}     # name of the atom phi[x | y] -> (x, y)
+
+
+def _phi(x, y):
+    name = f"phi[{key_of(x)} | {key_of(y)}]"
+    _PHI_POINTS.setdefault(name, (x, y))
+    return atom(name)
+
+
+def _phi_at(points: Arr):
+    return Arr([_phi(points.data[2 * i], points.data[2 * i + 1]) for i in range(points.shape[0])], (points.shape[0],))
+
+
+def _phi_sample(env, override=None):
+    """sample point in which the opaque obstacle function has the value of one fixed generic function of the (numeric) point, so that two
+    evaluation points that are equal as numbers give equal obstacle values however they were computed; `override` pins chosen applications"""
+    smp = Sample(env)
+    override = dict(override or {})
+
+    def value(name):
+        if name in override:
+            return override[name]
+        if name in _PHI_POINTS:
+            x, y = _PHI_POINTS[name]
+            xv, yv = smp(x.a), smp(y.a)
+            if xv is None or yv is None:
+                return None
+            xv, yv = F(xv).limit_denominator(10 ** 9) if isinstance(xv, float) else xv, F(yv).limit_denominator(10 ** 9) if isinstance(yv, float) else yv
+            return F(-1, 3) + F(2, 7) * xv - F(3, 11) * yv + F(1, 13) * xv * yv
+        return None
+    smp.resolvers.append(value)
+    return smp
+
+
+def _levelset(rec):
+    """opaque obstacle function: phi applied to a point is the atom phi[x | y]; every evaluation is recorded"""
+    def fn(it, args, kw):
+        if len(args) != 1 or kw:
+            raise EvalError("the level-set function is called with other arguments than the points")
+        pts = it.num(args[0])
+        if isinstance(pts, Arr) and pts.ndim == 2 and pts.shape[1] == 2:
+            out = _phi_at(pts)
+        elif isinstance(pts, Arr) and pts.shape == (2,):
+            out = _phi(pts.data[0], pts.data[1])
+        else:
+            raise EvalError(f"the level-set function is called with {show(pts, 60)}")
+        rec.append((pts, out))
+        return out
+    return PyFunc("levelset", fn)
+
+
+_ROLE_PATTERNS = (("levelset", ("levelset", "lset", "obstacle")), ("mesh", ("mesh",)), ("disp", ("disp",)), ("quad", ("quad",)),
+                  ("edge", ("edge", "side")), ("stiffness", ("stiff", "penalty", "kappa")))
+
+
+# reference parameter order of the public kernels (used for a parameter whose name says nothing)
+_REF_ORDER = {
+    "evaluate_levelset_on_edge": ("levelset", "mesh", "disp", "quad", "edge"), "compute_edge_penalty_contact_energy": ("levelset", "mesh", "disp", "quad", "edge", "stiffness"),
+    "get_current_coordinates_at_quadrature_points": ("mesh", "disp", "quad", "edge"), "compute_edge_levelset_constraints": ("levelset", "mesh", "disp", "quad", "edge"),
+    "compute_contact_point_coords_on_edge": ("mesh", "disp", "quad", "edge"), "compute_total_penalty_contact_energy": ("levelset", "disp", "mesh", "quad", "edge", "stiffness"),
+    "evaluate_contact_constraints": ("levelset", "disp", "mesh", "quad", "edge"), "compute_levelset_constraints": ("levelset", "disp", "mesh", "quad", "edge"),
+}
+
+
+def _roles(sc):
+    """public parameters of a contact kernel -> role (the parameters are the public keyword interface of the kernels); a parameter whose
+    name does not tell gets the role of its position in the reference signature when that role is still free"""
+    out = {}
+    ps = sc.params() + sc.kwonly()
+    for p in ps:
+        low = p.lower()
+        for role, pats in _ROLE_PATTERNS:
+            if any(x in low for x in pats):
+                out[p] = role
+                break
+    ref = _REF_ORDER.get(sc.name)
+    if ref and len(ref) == len(ps):
+        for p, role in zip(ps, ref):
+            if p not in out and role not in out.values():
+                out[p] = role
+    return out
+
+
+def _call_by_role(I, mod, sc, values):
+    roles = _roles(sc)
+    kwargs = {}
+    for p in sc.params() + sc.kwonly():
+        r = roles.get(p)
+        if r in values:
+            kwargs[p] = values[r]
+        elif sc.default_of(p) is None:
+            raise EvalError(f"parameter `{p}` of {sc.shortname} has no recognised role")
+    if sorted(roles.get(p) for p in kwargs) != sorted(set(roles.get(p) for p in kwargs)):
+        raise EvalError(f"two parameters of {sc.shortname} have the same role")
+    return I.call(I.module_value(mod, sc.name), [], kwargs)
+
+
+def _points_text(recs):
+    return "; ".join(show(pts, 150) for (pts, _) in recs[:2]) or "no point at all"
+
+
+class _Tally:
+    """verdict of one obligation that is examined in several situations: refuted by the first counterexample, undecided when a situation
+    could not be interpreted / compared, proved when every situation was"""
+    def __init__(self):
+        self.bad = self.unsure = None
+        self.n = 0
+
+    def add(self, verdict, text):
+        self.n += 1
+        if verdict is False:
+            self.bad = self.bad or text
+        elif verdict is None:
+            self.unsure = self.unsure or text
+
+    def cannot(self, ex):
+        self.n += 1
+        self.unsure = self.unsure or f"cannot interpret: {ex}"
+
+    def verdict(self):
+        return False if self.bad else (None if (self.unsure or not self.n) else True)
+
+    def text(self):
+        return self.bad or self.unsure or "no situation could be examined"
+
+
+_NOT_NF = " (equal at the sample point, but not identical as a normal form)"
 
 
 def o3_levelset(ctx):
     rule = "O3/T13-deformed-sample-points"
-    targets = [(PC, "evaluate_levelset_on_edge"), (PC, "compute_edge_penalty_contact_energy"), (PC, "get_current_coordinates_at_quadrature_points"),
-               (LC, "compute_edge_levelset_constraints"), (LC, "compute_contact_point_coords_on_edge")]
-    for (mname, fname) in targets:
+    inst = _Instance(ctx)
+    edges = [(0, 0), (1, 2), (2, 1)]
+    kpen = atom("kpen")
+    targets = [(PC, "evaluate_levelset_on_edge", "values"), (PC, "compute_edge_penalty_contact_energy", "energy"),
+               (PC, "get_current_coordinates_at_quadrature_points", "points"), (LC, "compute_edge_levelset_constraints", "values"),
+               (LC, "compute_contact_point_coords_on_edge", "points")]
+
+    def negpart(x, smp):
+        v = smp(x.a)
+        if v is None:
+            raise EvalError("no sample value for a value of the obstacle function")
+        return x if v < 0 else Dual(0)
+
+    # ---- kernels: what is evaluated where, on three edges (local sides 0, 2, 1: the wrap-around of the second node is exercised)
+    for (mname, fname, kind) in targets:
+        mod = ctx.need_module(mname)
         sc = ctx.need(f"{mname}:{fname}")
-        cfg = cfg_of(sc)
-        ps = sc.params()
-        mesh = "mesh"
-        disp = [p for p in ps if "disp" in p.lower()][0]
-        edge = "edge"
-        quad = [p for p in ps if "quad" in p.lower()][0]
-        # the argument of the level set (or the returned coordinates)
-        target = None
-        tnode = None
-        for n in cfg.nodes:
-            if n.kind != "stmt" or n.ast is None:
-                continue
-            for c in ast.walk(n.ast):
-                if isinstance(c, ast.Call) and isinstance(c.func, ast.Name) and c.func.id == "levelset":
-                    target, tnode = c.args[0], n
-        if target is None:
-            r = cfg.returns()
-            if r:
-                target, tnode = r[0].ast.value, r[0]
-        if target is None:
-            ctx.undecided(rule, sc, None, construct=f"{fname}:sample-points", detail="no level-set call / returned coordinates found")
-            continue
-        e = normal_form(sc, tnode, target)
-        want = (f"QuadratureRule.eval_at_iso_points({quad}.xigauss, Surface.eval_field({mesh}.coords, Surface.get_field_index({edge}, {mesh}.conns)) + "
-                f"Surface.eval_field({disp}, Surface.get_field_index({edge}, {mesh}.conns)))")
-        ok = sem_same(e, want, sc)
-        ctx.decide(rule, ok, sc, tnode.ast, construct=f"{mname.split('.')[-1]}.{fname}:points=coords+disp",
-                   detail="obstacle function evaluated at quadrature points of (edge coordinates + edge displacements)",
-                   bad_detail=f"{fname}: sample points are `{src(e)[:160]}`; expected the quadrature points of coordinates + displacements of the same edge")
-    # penalty integrand
+        cons = f"{_short(mname)}.{fname}:points=coords+disp"
+        T = _Tally()
+        for edge in edges:
+            smp = _phi_sample(inst.env())
+            I, mesh, quad = inst.interp(smp)
+            rec = []
+            vals = {"levelset": _levelset(rec), "mesh": mesh, "disp": inst.U, "quad": quad, "edge": int_array(list(edge)), "stiffness": kpen}
+            want_pts = inst.qpoints(edge)
+            where = f"the edge (element {edge[0]}, side {edge[1]})"
+            try:
+                out = _call_by_role(I, mod, sc, vals)
+                if kind == "points":
+                    out = I.num(out)
+                    v = judge(out, want_pts, smp)
+                    T.add(v, f"{fname} returns `{show(out, 200)}` for {where}; expected the quadrature points of (coordinates + displacements) of its two nodes "
+                             f"{inst.nodes(edge)}" + ("" if v is False else _NOT_NF))
+                elif kind == "values":
+                    out = I.num(out)
+                    v = judge(out, _phi_at(want_pts), smp)
+                    T.add(v, f"{fname} returns `{show(out, 160)}` for {where}: the obstacle function is evaluated at {_points_text(rec)}; expected its values at the "
+                             f"quadrature points of (coordinates + displacements) of the nodes {inst.nodes(edge)}" + ("" if v is False else _NOT_NF))
+                else:
+                    if not rec:
+                        raise EvalError("the obstacle function is never evaluated")
+                    for (pts, _) in rec:
+                        v = judge(pts, want_pts, smp)
+                        T.add(v, f"{fname} evaluates the obstacle function at `{show(pts, 200)}` for {where}; expected the quadrature points of (coordinates + "
+                                 f"displacements) of the nodes {inst.nodes(edge)}" + ("" if v is False else _NOT_NF))
+            except INTERP_ERRORS as ex:
+                T.cannot(ex)
+            finally:
+                _touch(ctx, I)
+        ctx.decide(rule, T.verdict(), sc, None, construct=cons,
+                   detail="obstacle function evaluated at quadrature points of (edge coordinates + edge displacements), 3 edges", bad_detail=T.text())
+
+    # ---- penalty integrand: every sign pattern of the obstacle function at the two quadrature points
     sc = ctx.need(f"{PC}:compute_edge_penalty_contact_energy")
-    cfg = cfg_of(sc)
-    r = cfg.returns()
-    e = normal_form(sc, r[0], r[0].ast.value) if r else None
-    ok = False
-    if e is not None:
-        lv_, me_, di_, qu_, ed_, st_ = sc.params()
-        ec_ = f"Surface.eval_field({me_}.coords, Surface.get_field_index({ed_}, {me_}.conns))"
-        pts_ = f"QuadratureRule.eval_at_iso_points({qu_}.xigauss, {ec_} + Surface.eval_field({di_}, Surface.get_field_index({ed_}, {me_}.conns)))"
-        ok = sem_same(e, f"{st_} * Surface.integrate_values({qu_}, {ec_}, np.square(np.minimum(0.0, {lv_}({pts_}))))", sc) or \
-            sem_same(e, f"{st_} * Surface.integrate_values({qu_}, {ec_}, np.square(np.minimum({lv_}({pts_}), 0.0)))", sc)
-    ctx.decide("O3/T8-penalty-integrand", ok, sc, r[0].ast if r else None, construct="penalty=stiffness*int(min(0,phi)^2)",
-               detail="square of the negative part, reference edge weights, times stiffness",
-               bad_detail=f"penalty energy is `{src(e)[:140] if e is not None else '?'}`; expected stiffness * integral of square(minimum(0, levelset))")
-    iv = ctx.need("optimism.Surface:integrate_values")
-    from .common import Unifier
-    ui = Unifier(iv)
-    q_, c_, g_ = iv.params()
-    tup_ = [s_ for s_ in iv.node.body if isinstance(s_, ast.Assign) and isinstance(s_.targets[0], ast.Tuple)]
-    ok = len(tup_) == 1 and ui.match(tup_[0], ast.parse(f"_, wgauss = {q_}").body[0]) and \
-        len(ui.assigns(f"np.linalg.norm({c_}[0, :] - {c_}[1, :])", target="jac")) == 1 and len(ui.assigns("jac * wgauss", target="dx")) == 1 and \
-        len(iv.returns()) == 1 and ui.match(iv.returns()[0], f"dx.dot({g_})")
-    ctx.decide("O3/T8-penalty-integrand", ok, iv, None, construct="integrate_values:nonneg-weights", detail="weights = edge length * Gauss weights",
-               bad_detail="Surface.integrate_values does not integrate with (edge length * Gauss weights)")
-    # vmapped totals pass the roles through
-    for (mname, total, kernel) in ((PC, "compute_total_penalty_contact_energy", "compute_edge_penalty_contact_energy"),
-                                   (PC, "evaluate_contact_constraints", "evaluate_levelset_on_edge"),
-                                   (LC, "compute_levelset_constraints", "compute_edge_levelset_constraints")):
+    mod = ctx.need_module(PC)
+    edge = (1, 2)
+    T = _Tally()
+    for signs in ((-1, -1), (-1, 1), (1, -1), (1, 1)):
+        want_pts = inst.qpoints(edge)
+        phis = _phi_at(want_pts)
+        pins = {list(phis.data[q].a.atoms())[0]: F(2 + q) * sg for q, sg in enumerate(signs)}
+        smp = _phi_sample(inst.env(), pins)
+        I, mesh, quad = inst.interp(smp)
+        rec = []
+        vals = {"levelset": _levelset(rec), "mesh": mesh, "disp": inst.U, "quad": quad, "edge": int_array(list(edge)), "stiffness": kpen}
+        try:
+            out = I.num(_call_by_role(I, mod, sc, vals))
+            if isinstance(out, Arr):
+                if out.size() != 1:
+                    raise EvalError("the edge energy is an array")
+                out = out.data[0]
+            # the integrand is judged on the values the code obtained from the obstacle function (where they are taken is O3/T13's business)
+            got = rec[0][1] if len(rec) == 1 and isinstance(rec[0][1], Arr) and rec[0][1].shape == (inst.nq,) else phis
+            neg = [negpart(got.data[q], smp) for q in range(inst.nq)]
+            want = kpen * inst.ref_length(edge) * sum_d(inst.w[q] * neg[q] * neg[q] for q in range(inst.nq))
+            v = judge(out, want, smp)
+            pat = ", ".join("phi_%d %s 0" % (q, "<" if (smp(got.data[q].a) or 0) < 0 else ">") for q in range(inst.nq))
+            T.add(v, f"for {pat} the penalty energy of an edge is `{show(out.a, 220)}`; expected stiffness * |reference edge| * sum_q w_q * min(0, phi_q)^2 "
+                     f"= `{show(want.a, 160)}`" + ("" if v is False else _NOT_NF))
+        except INTERP_ERRORS as ex:
+            T.cannot(ex)
+        finally:
+            _touch(ctx, I)
+    ctx.decide("O3/T8-penalty-integrand", T.verdict(), sc, None, construct="penalty=stiffness*int(min(0,phi)^2)",
+               detail="square of the negative part, reference edge weights, times stiffness (4 sign patterns)", bad_detail=T.text())
+
+    # ---- Surface.integrate_values = |c0 - c1| * sum_q w_q f_q
+    iv = ctx.need(f"{SF}:integrate_values")
+    smp = Sample(inst.env())
+    I, mesh, quad = inst.interp(smp)
+    c = sym_array("c", (2, 2))
+    f = sym_array("f", (2,))
+    try:
+        out = I.num(I.call(I.module_value(ctx.need_module(SF), "integrate_values"), [quad, c, f], {}))
+        length = d_fun("sqrt", (c.data[0] - c.data[2]) * (c.data[0] - c.data[2]) + (c.data[1] - c.data[3]) * (c.data[1] - c.data[3]))
+        want = length * (inst.w[0] * f.data[0] + inst.w[1] * f.data[1])
+        v = judge(out, want, smp)
+        ctx.decide("O3/T8-penalty-integrand", v, iv, None, construct="integrate_values:nonneg-weights", detail="weights = edge length * Gauss weights",
+                   bad_detail=f"Surface.integrate_values(rule, c, f) is `{show(out, 200)}`, not |c0 - c1| * sum_q w_q f_q" + ("" if v is False else _NOT_NF))
+    except INTERP_ERRORS as ex:
+        ctx.undecided("O3/T8-penalty-integrand", iv, None, construct="integrate_values:nonneg-weights", detail=f"cannot interpret: {ex}")
+    finally:
+        _touch(ctx, I)
+
+    # ---- totals: the kernels mapped over the edges
+    E = int_array([list(e) for e in edges])
+    for (mname, total, kind) in ((PC, "compute_total_penalty_contact_energy", "energy"), (PC, "evaluate_contact_constraints", "values"),
+                                 (LC, "compute_levelset_constraints", "values")):
+        mod = ctx.need_module(mname)
         sc = ctx.need(f"{mname}:{total}")
-        ker = ctx.need(f"{mname}:{kernel}")
-        ok = False
-        shown = "?"
-        for c in calls_in(sc):
-            if isinstance(c.func, ast.Call) and (dotted(c.func.func) or "") == "vmap" and isinstance(c.func.args[0], ast.Name) and c.func.args[0].id == kernel:
-                axes = c.func.args[1]
-                names = [src(a) for a in c.args]
-                kp = ker.params()
-                role = lambda p: "disp" if "disp" in p.lower() else ("edge" if p in ("edge", "edges") else p)
-                ok = [role(n) for n in names] == [role(p) for p in kp] and isinstance(axes, ast.Tuple) and \
-                    [const_value(a) for a in axes.elts] == [0 if p == "edge" else None for p in kp]
-                shown = f"vmap({kernel}, {src(axes)})({', '.join(names)})"
-        ctx.decide(rule, ok, sc, None, construct=f"{total}:roles", detail=shown, bad_detail=f"{total} maps the kernel as `{shown}`; arguments or mapped axis do not match the kernel's parameters {ker.params()}")
+        smp = _phi_sample(inst.env())
+        I, mesh, quad = inst.interp(smp)
+        rec = []
+        vals = {"levelset": _levelset(rec), "mesh": mesh, "disp": inst.U, "quad": quad, "edge": E, "stiffness": kpen}
+        try:
+            out = I.num(_call_by_role(I, mod, sc, vals))
+            if kind == "values":
+                want = Arr([x for e in edges for x in _phi_at(inst.qpoints(e)).data], (len(edges), inst.nq))
+                exp = "the obstacle function at the deformed quadrature points of every edge, edge by edge"
+            else:
+                want = Dual(0)
+                for e in edges:
+                    ph = [negpart(x, smp) for x in _phi_at(inst.qpoints(e)).data]
+                    want = want + kpen * inst.ref_length(e) * sum_d(inst.w[q] * ph[q] * ph[q] for q in range(inst.nq))
+                exp = "the sum over the edges of stiffness * |reference edge| * sum_q w_q min(0, phi)^2"
+            v = judge(out, want, smp)
+            ctx.decide(rule, v, sc, None, construct=f"{total}:roles", detail=f"{total} = {exp}",
+                       bad_detail=f"{total} on three edges is `{show(out, 220)}`; expected {exp}" + ("" if v is False else _NOT_NF))
+        except INTERP_ERRORS as ex:
+            ctx.undecided(rule, sc, None, construct=f"{total}:roles", detail=f"cannot interpret: {ex}")
+        finally:
+            _touch(ctx, I)
+
+
+# ====================================================================================================================== O2 ranking of candidate edges
+
+class _Ranking:
+    """The node-to-segment pipelines of Contact.py, interpreted with opaque signed distances: every call of EdgeCpp.cpp_distance(edge, point)
+    is recorded and returns a fresh symbol whose sample value follows a pattern in which the most negative candidate is NOT the nearest."""
+    PATTERNS = ((-3, 1, 2), (-1, -3, 2), (2, -1, 3), (4, 3, -2))
+
+    def __init__(self, ctx):
+        self.ctx = ctx
+        self.inst = _Instance(ctx)
+        self.surfaceI = [(0, 0), (1, 2)]
+        self.inter = [[(2, 1), (2, 2), (1, 0)], [(2, 0), (2, 1), (0, 1)]]
+        self.groups = {}       # key of the query point -> list of call records
+        self.calls = {}        # atom name -> record
+        self.smooth = []
+        self.values = {}
+
+    def value(self, name):
+        return self.values.get(name)
+
+    def interp(self):
+        I, mesh, quad = self.inst.interp(Sample(self.inst.env(), [self.value]))
+        R = self
+
+        def dist(it, args, kw):
+            ps = R.ctx.repo.find(f"{EC}:cpp_distance").params()
+            bound = dict(zip(ps, args))
+            bound.update(kw)
+            if len(ps) != 2 or set(bound) != set(ps) or len(args) > 2:
+                raise EvalError("cpp_distance called with other arguments than (edge, point)")
+            edge, pt = it.num(bound[ps[0]]), it.num(bound[ps[1]])
+            if not (isinstance(edge, Arr) and edge.shape == (2, 2) and isinstance(pt, Arr) and pt.shape == (2,)):
+                raise EvalError(f"cpp_distance called with {show(edge, 40)}, {show(pt, 40)}")
+            k = (key_of(pt.data[0]), key_of(pt.data[1]))
+            grp = R.groups.setdefault(k, [])
+            ek = tuple(key_of(x) for x in edge.data)
+            for r in grp:
+                if r["ekey"] == ek:
+                    return r["atom"]
+            g, c = list(R.groups).index(k), len(grp)
+            name = f"D[{g},{c}]"
+            pat = R.PATTERNS[g % len(R.PATTERNS)]
+            R.values[name] = F(pat[c % 3]) + (F(10 * (c // 3)) if pat[c % 3] > 0 else F(-10 * (c // 3)))
+            r = {"atom": atom(name), "name": name, "edge": edge, "ekey": ek, "point": pt, "g": g, "c": c}
+            grp.append(r)
+            R.calls[name] = r
+            return r["atom"]
+
+        def smooth(it, args, kw):
+            sc_ = R.ctx.repo.find(f"{EC}:smooth_distance")
+            ps = sc_.params()
+            b = dict(zip(ps, args))
+            b.update(kw)
+            two, pt = it.num(b[ps[0]]), it.num(b[ps[1]])
+            out = atom(f"SD[{len(R.smooth)}]")
+            R.smooth.append({"two": two, "point": pt, "atom": out})
+            R.values[f"SD[{len(R.smooth) - 1}]"] = F(1)
+            return out
+        I.special[f"{EC}:cpp_distance"] = dist
+        I.special[f"{EC}:smooth_distance"] = smooth
+        return I, mesh, quad
+
+    def inputs(self, mesh, quad):
+        return {"mesh": mesh, "disp": self.inst.U, "quad": quad, "interaction": int_array([[list(e) for e in row] for row in self.inter]),
+                "surfaceI": int_array([list(e) for e in self.surfaceI])}
+
+    def group_of(self, point):
+        return self.groups.get((key_of(point.data[0]), key_of(point.data[1])))
+
+    def by_abs(self, grp):
+        return sorted(grp, key=lambda r: abs(self.values[r["name"]]))
+
+
+class _Geometric:
+    """The same pipelines without any opaque distance: a mesh whose (deformed) candidate edges lie at chosen signed distances from the quadrature
+    points of two integration edges -- first integration edge: candidates at -3, +1, +2; second: -1, -3, +2 -- so that ranking signed instead of
+    absolute distances picks another candidate.  Coordinates and displacements stay symbolic; the layout only fixes the sample point.  The
+    expected winner is computed with the library's own EdgeCpp.cpp_distance (whose formula is O2/T5's business), interpreted per candidate."""
+    LAYOUT = (  # deformed end points (first, second) of: the integration edge, then its three candidates
+        (((4, 0), (6, 0)), (((0, -3), (10, -3)), ((10, -1), (0, -1)), ((10, -2), (0, -2)))),
+        (((4, 10), (6, 10)), (((0, 9), (10, 9)), ((0, 7), (10, 7)), ((10, 8), (0, 8)))),
+    )
+    SIDES = (0, 1, 2)        # local side of the k-th candidate: all three, so the wrap-around of the second node is exercised
+
+    def __init__(self, ctx):
+        self.ctx = ctx
+        self.nq = 2
+        self.xi = [atom("q0"), atom("q1")]
+        conns, pos = [], {}
+        self.surfaceI, self.inter = [], []
+
+        def element(side, ends):
+            e = len(conns)
+            nodes = [3 * e, 3 * e + 1, 3 * e + 2]
+            conns.append(nodes)
+            pos[nodes[side]], pos[nodes[(side + 1) % 3]] = ends
+            pos[nodes[(side + 2) % 3]] = (5, 20 + e)
+            return (e, side)
+        for (integ, cands) in self.LAYOUT:
+            self.surfaceI.append(element(0, integ))
+            self.inter.append([element(self.SIDES[k], c) for k, c in enumerate(cands)])
+        self.conns_list = conns
+        n = 3 * len(conns)
+        self.X, self.U = sym_array("X", (n, 2)), sym_array("U", (n, 2))
+        self.conns = int_array(conns)
+        self.envd = {"q0": F(1, 5), "q1": F(4, 5), "w0": F(1, 2), "w1": F(1, 2), "stol": F(1, 100)}
+        for k in range(n):
+            for d in range(2):
+                u = F((7 * k + 3 * d) % 11 - 5, 40)
+                self.envd[f"U{k}_{d}"] = u
+                self.envd[f"X{k}_{d}"] = F(pos[k][d]) - u
+        self.smooth = []
+
+    def sample(self):
+        return Sample(self.envd, [lambda nme: F(1) if nme.startswith("SD[") else None])
+
+    def cur_edge(self, edge):
+        e, s = edge
+        n1, n2 = self.conns_list[e][s], self.conns_list[e][(s + 1) % 3]
+        return Arr([self.X.data[2 * n1] + self.U.data[2 * n1], self.X.data[2 * n1 + 1] + self.U.data[2 * n1 + 1],
+                    self.X.data[2 * n2] + self.U.data[2 * n2], self.X.data[2 * n2 + 1] + self.U.data[2 * n2 + 1]], (2, 2))
+
+    def qpoint(self, i, q):
+        c = self.cur_edge(self.surfaceI[i])
+        return Arr([c.data[d] + (c.data[2 + d] - c.data[d]) * self.xi[q] for d in range(2)], (2,))
+
+    def interp(self):
+        I = SymInterp(self.ctx.repo, self.sample())
+        M = self.ctx.need_module("optimism.Mesh")
+        Q = self.ctx.need_module("optimism.QuadratureRule")
+        try:
+            mesh = I.call(I.module_value(M, "Mesh"), [], {"coords": self.X, "conns": self.conns})
+        except INTERP_ERRORS:
+            mesh = None
+        if not isinstance(mesh, Record) or "coords" not in mesh.fields or "conns" not in mesh.fields:
+            mesh = Record("Mesh", ["coords", "conns"], [self.X, self.conns])
+        xig, wg = Arr(list(self.xi), (2,)), Arr([atom("w0"), atom("w1")], (2,))
+        try:
+            quad = I.call(I.module_value(Q, "QuadratureRule"), [xig, wg], {})
+        except INTERP_ERRORS:
+            quad = None
+        if not isinstance(quad, Record) or len(quad.values) != 2:
+            quad = Record("QuadratureRule", ["xigauss", "wgauss"], [xig, wg])
+        G = self
+
+        def smooth(it, args, kw):
+            sc_ = G.ctx.repo.find(f"{EC}:smooth_distance")
+            ps = sc_.params()
+            b = dict(zip(ps, args))
+            b.update(kw)
+            out = atom(f"SD[{len(G.smooth)}]")
+            G.smooth.append({"two": it.num(b[ps[0]]), "point": it.num(b[ps[1]]), "atom": out})
+            return out
+        I.special[f"{EC}:smooth_distance"] = smooth
+        return I, mesh, quad
+
+    def inputs(self, mesh, quad):
+        return {"mesh": mesh, "disp": self.U, "quad": quad, "interaction": int_array([[list(e) for e in row] for row in self.inter]),
+                "surfaceI": int_array([list(e) for e in self.surfaceI])}
+
+    def ranking(self):
+        """per (integration edge, quadrature point): the candidates' signed distances (symbolic, by the library's cpp_distance) and their order by
+        absolute value at the sample"""
+        EM = self.ctx.need_module(EC)
+        out = {}
+        for i in range(len(self.surfaceI)):
+            for q in range(self.nq):
+                ds = []
+                for c in self.inter[i]:
+                    I = SymInterp(self.ctx.repo, self.sample())
+                    d = I.num(I.call(I.module_value(EM, "cpp_distance"), [self.cur_edge(c), self.qpoint(i, q)], {}))
+                    if isinstance(d, Arr):
+                        d = d.data[0]
+                    v = self.sample()(d.a)
+                    if v is None:
+                        raise EvalError("no sample value for a candidate distance")
+                    ds.append((d, v))
+                order = sorted(range(len(ds)), key=lambda k: abs(ds[k][1]))
+                if abs(abs(ds[order[0]][1]) - abs(ds[order[1]][1])) < 1e-9:
+                    raise EvalError("tie between candidate distances")
+                out[(i, q)] = (ds, order)
+        return out
+
+
+_CT_ROLES = (("mesh", ("mesh",)), ("disp", ("disp",)), ("quad", ("quad",)), ("interaction", ("interaction", "neighbor", "candidates")),
+             ("surfaceI", ("surfacei", "surfi", "integration", "subordinate")), ("tol", ("tol", "smooth")))
+
+
+_CT_REF = ("mesh", "disp", "quad", "interaction", "surfaceI", "tol")
+
+
+def _ct_call(I, mod, sc, values):
+    kwargs = {}
+    named = {p: next((r for r, pats in _CT_ROLES if any(x in p.lower() for x in pats)), None) for p in sc.params()}
+    for k, p in enumerate(sc.params()):
+        role = named[p]
+        if role is None and k < len(_CT_REF) and _CT_REF[k] not in named.values():
+            role = _CT_REF[k]
+        if role in values:
+            kwargs[p] = values[role]
+        elif sc.default_of(p) is None:
+            raise EvalError(f"parameter `{p}` of {sc.shortname} has no recognised role" if role is None else f"no value for the parameter `{p}` of {sc.shortname}")
+    return I.call(I.module_value(mod, sc.name), [], kwargs)
 
 
 def o2_closest_by_abs(ctx):
-    """Closest edge / closest distance: the winner among candidate edges is the one of smallest ABSOLUTE signed distance
-    (EdgeCpp.cpp_distance is signed: negative when penetrating).  Every argmin over such distances must rank |d|."""
+    """Closest edge / closest distance / two closest edges: the winner among the candidate edges is the one of smallest ABSOLUTE signed distance
+    (EdgeCpp.cpp_distance is signed: negative when penetrating)."""
     rule = "O2/T6-closest-by-absolute-distance"
-    CT = "optimism.contact.Contact"
     mod = ctx.need_module(CT)
-    n = 0
+    visited = set()
+
+    def run(fname, check, smooth=False):
+        sc = ctx.need(f"{CT}:{fname}")
+        R = _Ranking(ctx)
+        cons = f"{fname}:ranked-by-absolute-distance"
+        I = None
+        try:
+            I, mesh, quad = R.interp()
+            vals = R.inputs(mesh, quad)
+            if smooth:
+                vals["tol"] = atom("stol")      # otherwise a smoothing parameter keeps its default
+            out = _ct_call(I, mod, sc, vals)
+            if not R.calls:
+                raise EvalError("EdgeCpp.cpp_distance is never called")
+            verdict, detail = check(R, I, out)
+        except INTERP_ERRORS as ex:
+            verdict, detail = None, f"cannot interpret: {ex}"
+        finally:
+            if I is not None:
+                _touch(ctx, I)
+                visited.update(I.visited)
+        if verdict is None:
+            if geometric(fname, check, smooth, sc, cons, detail):
+                return
+        ctx.decide(rule, verdict, sc, None, construct=cons, detail=detail, bad_detail=detail)
+
+    def geometric(fname, check, smooth, sc, cons, why):
+        """second reading, for code that does not go through EdgeCpp.cpp_distance edge by edge: the pipeline on a laid-out mesh, no opaque distances"""
+        I = None
+        try:
+            G = _Geometric(ctx)
+            I, mesh, quad = G.interp()
+            vals = G.inputs(mesh, quad)
+            if smooth:
+                vals["tol"] = atom("stol")
+            out = _ct_call(I, mod, sc, vals)
+            rk = G.ranking()
+            verdict, detail = {check_dist: geo_dist, check_edges: geo_edges, check_two: geo_two}[check](G, I, out, rk)
+        except INTERP_ERRORS as ex:
+            ctx.undecided(rule, sc, None, construct=cons, detail=f"{why}; on a laid-out mesh: cannot interpret: {ex}")
+            return True
+        finally:
+            if I is not None:
+                _touch(ctx, I)
+                visited.update(I.visited)
+        ctx.decide(rule, verdict, sc, None, construct=cons, detail=detail, bad_detail=detail if verdict is False else f"{why}; on a laid-out mesh: {detail}")
+        return True
+
+    def dists_text(ds):
+        return ", ".join(f"{float(v):+.3g}" for (_, v) in ds)
+
+    def geo_dist(G, I, out, rk):
+        out = I.num(out)
+        nI = len(G.surfaceI)
+        if not (isinstance(out, Arr) and out.size() == nI * G.nq):
+            return None, f"the closest distances have the shape {getattr(out, 'shape', None)}"
+        res = True
+        for i in range(nI):
+            for q in range(G.nq):
+                ds, order = rk[(i, q)]
+                x = out.data[i * G.nq + q]
+                v = judge(x, ds[order[0]][0], I.policy)
+                if v is False:
+                    xv = I.policy(x.a)
+                    return False, (f"a quadrature point with the candidate signed distances ({dists_text(ds)}): the function returns {float(xv):+.3g}; the nearest edge is the one of "
+                                   f"smallest absolute distance, {float(ds[order[0]][1]):+.3g} (signed distances are negative when the point penetrates)")
+                if v is None:
+                    res = None
+        return res, (f"{nI * G.nq} query points x 3 candidates on a laid-out mesh: the returned signed distance is the one of smallest absolute value" if res else
+                     "the returned distances equal those of the nearest candidates at the sample point only" + _NOT_NF)
+
+    def geo_edges(G, I, out, rk):
+        if isinstance(out, Record):
+            out = tuple(out.values)
+        edges = I.num(out[0]) if isinstance(out, (tuple, list)) else I.num(out)
+        nI = len(G.surfaceI)
+        if not (isinstance(edges, Arr) and edges.size() == nI * G.nq * 2):
+            return None, f"closest edges have the shape {getattr(edges, 'shape', None)}"
+        for i in range(nI):
+            for q in range(G.nq):
+                ds, order = rk[(i, q)]
+                got = tuple(I.as_int(x) for x in edges.data[2 * (i * G.nq + q):2 * (i * G.nq + q) + 2])
+                if got != G.inter[i][order[0]]:
+                    k = G.inter[i].index(got) if got in G.inter[i] else None
+                    return False, (f"a quadrature point with the candidate signed distances ({dists_text(ds)}): the closest edge is taken to be "
+                                   f"{'the candidate at %+.3g' % float(ds[k][1]) if k is not None else got}; the nearest edge is the one of smallest absolute distance, "
+                                   f"{float(ds[order[0]][1]):+.3g}")
+        return True, f"{nI * G.nq} query points x 3 candidates on a laid-out mesh: the closest edge is the candidate of smallest absolute distance"
+
+    def geo_two(G, I, out, rk):
+        if not G.smooth:
+            return None, "EdgeCpp.smooth_distance is never called"
+        res = True
+        for s in G.smooth:
+            where = [(i, q) for i in range(len(G.surfaceI)) for q in range(G.nq) if isinstance(s["point"], Arr) and s["point"].shape == (2,)
+                     and judge(s["point"], G.qpoint(i, q), I.policy) is True]
+            if len(where) != 1 or not (isinstance(s["two"], Arr) and s["two"].shape == (2, 2, 2)):
+                return None, "the arguments of smooth_distance are not (two edges, a deformed quadrature point of an integration edge)"
+            i, q = where[0]
+            ds, order = rk[(i, q)]
+            want = Arr(list(G.cur_edge(G.inter[i][order[0]]).data) + list(G.cur_edge(G.inter[i][order[1]]).data), (2, 2, 2))
+            v = judge(s["two"], want, I.policy)
+            if v is False:
+                return False, (f"a quadrature point with the candidate signed distances ({dists_text(ds)}): the two edges handed to smooth_distance are not the two of smallest "
+                               f"absolute distance ({float(ds[order[0]][1]):+.3g} first, then {float(ds[order[1]][1]):+.3g})")
+            if v is None:
+                res = None
+        return res, (f"{len(G.smooth)} query points x 3 candidates on a laid-out mesh: the two edges of smallest absolute distance go to smooth_distance, nearest first" if res else
+                     "the edges handed to smooth_distance equal the two nearest candidates at the sample point only" + _NOT_NF)
+
+    def describe(R, r):
+        grp = [x for x in R.calls.values() if x["g"] == r["g"]]
+        return ", ".join(f"{x['name']}={R.values[x['name']]}" for x in sorted(grp, key=lambda x: x["c"]))
+
+    def check_dist(R, I, out):
+        out = I.num(out)
+        n = 0
+        for x in (out.data if isinstance(out, Arr) else [out]):
+            ats = [a for a in x.a.atoms() if a in R.calls]
+            gs = {R.calls[a]["g"] for a in ats}
+            if len(gs) != 1:
+                return None, f"a returned closest distance is `{show(x.a, 100)}`, which does not belong to the candidates of one query point"
+            r = R.calls[ats[0]]
+            best = R.by_abs([y for y in R.calls.values() if y["g"] == r["g"]])[0]
+            if len(ats) != 1 or not same(x, r["atom"]):
+                # not literally one candidate's distance: compare with the nearest candidate's signed distance at the sample values
+                v = judge(x, best["atom"], I.policy)
+                if v is True:
+                    n += 1
+                    continue
+                return (False if v is False else None), (f"with the candidate distances {describe(R, r)} of one query point the function returns `{show(x.a, 100)}`; the signed "
+                                                         f"distance of the nearest edge is {best['name']}" + ("" if v is False else _NOT_NF))
+            if best is not r:
+                return False, (f"with the candidate distances {describe(R, r)} of one query point the function returns {r['name']}; the nearest edge is the one of "
+                               f"smallest absolute distance, {best['name']} (signed distances are negative when the point penetrates)")
+            n += 1
+        if n != len(R.groups):
+            return None, f"{n} distances returned for {len(R.groups)} query points"
+        return True, f"{n} query points x 3 candidates: the returned signed distance is the one of smallest absolute value"
+
+    def check_edges(R, I, out):
+        if isinstance(out, Record):
+            out = tuple(out.values)
+        edges = I.num(out[0]) if isinstance(out, (tuple, list)) else I.num(out)
+        nI, nq = len(R.surfaceI), R.inst.nq
+        if not (isinstance(edges, Arr) and edges.size() == nI * nq * 2):
+            return None, f"closest edges have the shape {getattr(edges, 'shape', None)}"
+        for i in range(nI):
+            pts = R.inst.qpoints(R.surfaceI[i])
+            for q in range(nq):
+                grp = R.group_of(Arr(pts.data[2 * q:2 * q + 2], (2,)))
+                if not grp:
+                    return None, "no distance evaluation found for a deformed quadrature point of the integration edge"
+                got = tuple(I.as_int(x) for x in edges.data[2 * (i * nq + q):2 * (i * nq + q) + 2])
+                cand = {}
+                for r in grp:
+                    hit = [e for e in R.inter[i] if same_arr(r["edge"], R.inst.cur_edge(e))]
+                    if len(hit) != 1:
+                        return None, "a candidate edge passed to cpp_distance is not the deformed edge of a candidate of the interaction list"
+                    cand[r["name"]] = hit[0]
+                best = R.by_abs(grp)[0]
+                if got != cand[best["name"]]:
+                    who = [nme for nme, e in cand.items() if e == got]
+                    return False, (f"with the candidate distances {describe(R, best)} the closest edge of a quadrature point is taken to be the candidate with "
+                                   f"{who[0] if who else got}; the nearest edge is the one of smallest absolute distance, {best['name']}")
+        return True, f"{nI * nq} query points x 3 candidates: the closest edge is the candidate of smallest absolute distance"
+
+    def check_two(R, I, out):
+        if not R.smooth:
+            return None, "EdgeCpp.smooth_distance is never called"
+        for s in R.smooth:
+            grp = R.group_of(s["point"]) if isinstance(s["point"], Arr) and s["point"].shape == (2,) else None
+            if not grp or len(grp) < 2 or not (isinstance(s["two"], Arr) and s["two"].shape == (2, 2, 2)):
+                return None, "the arguments of smooth_distance are not (two edges, a query point whose candidate distances were evaluated)"
+            order = R.by_abs(grp)
+            want = Arr(list(order[0]["edge"].data) + list(order[1]["edge"].data), (2, 2, 2))
+            if not same_arr(s["two"], want):
+                sel = []
+                for k in range(2):
+                    e = Arr(s["two"].data[4 * k:4 * k + 4], (2, 2))
+                    sel += [r["name"] for r in grp if same_arr(r["edge"], e)] or ["?"]
+                return False, (f"with the candidate distances {describe(R, order[0])} the two edges handed to smooth_distance are those of {sel}; the two nearest "
+                               f"edges are those of smallest absolute distance, {[order[0]['name'], order[1]['name']]}")
+        return True, f"{len(R.smooth)} query points x 3 candidates: the two edges of smallest absolute distance go to smooth_distance, nearest first"
+
+    run("compute_closest_distance_to_each_side", check_dist)
+    run("compute_closest_edges_and_field_weights", check_edges)
+    run("compute_closest_distance_to_each_side_smooth", check_two, smooth=True)
+    # every function of Contact.py that ranks signed distances must have been on one of the interpreted paths
     for sc in ctx.repo.functions():
         if sc.module.name != CT:
             continue
-        cfg = None
-        for c in calls_in(sc):
-            if (dotted(c.func) or "").split(".")[-1] != "argmin" or not c.args:
-                continue
-            cfg = cfg or cfg_of(sc)
-            nd = [x for x in cfg.nodes if x.ast is not None and any(y is c for y in ast.walk(x.ast))]
-            if not nd:
-                continue
-            arg = expand(cfg, nd[0], c.args[0])
-            signed = [k for k in ast.walk(arg) if isinstance(k, (ast.Attribute, ast.Name)) and (dotted(k) or "").split(".")[-1] == "cpp_distance"]
-            if not signed:
-                continue
-            n += 1
-            # the signed-distance producer must sit under abs(...) inside the argmin argument
-            def under_abs(root, target):
-                for k in ast.walk(root):
-                    if isinstance(k, ast.Call) and (dotted(k.func) or "").split(".")[-1] in ("abs", "absolute", "fabs") and any(t is target for t in ast.walk(k)):
-                        return True
-                return False
-            ok = all(under_abs(arg, t) for t in signed)
-            ctx.decide(rule, ok, sc, c, construct=f"{sc.qualname.split(':')[-1]}:argmin-of-absolute-distance", detail=f"argmin({src(arg)[:70]})",
-                       bad_detail=f"`{src(c)}` ranks the SIGNED distances `{src(arg)[:90]}`: when the point penetrates, the most negative distance wins instead of the nearest edge")
-    if n < 2:
-        raise Incomplete(f"{n} closest-edge selections over signed distances found in Contact.py (2 expected)")
+        own = [n for n in ast.walk(sc.node) if isinstance(n, (ast.Attribute, ast.Name)) and (n.attr if isinstance(n, ast.Attribute) else n.id) == "cpp_distance"
+               and ctx.repo.scope_of(n) in (None, sc)]
+        direct = [n for n in own if not any(n in ast.walk(ch.node) for ch in sc.children)]
+        if direct and sc.qualname not in visited:
+            ctx.undecided(rule, sc, None, construct=f"{sc.shortname}:unanalysed-user-of-signed-distances",
+                          detail="this function uses EdgeCpp.cpp_distance but is not reached from the interpreted node-to-segment pipelines")
 
+
+# ====================================================================================================================== O4 mortar assembly
 
 def o4_assembly(ctx):
-    """Nodal mortar integrals: the (1 - xi)-weighted integral belongs to the first node of the B segment, the xi-weighted one to its
-    second node.  Tags are propagated through tuple returns, vmap and tuple unpacking down to the scatter-add."""
+    """Nodal mortar integrals: assembly_mortar_integral is interpreted on two A and two B segments with two neighbours each.  integrate_with_mortar
+    is an opaque LINEAR functional of its integrand (O4/T5-mortar-weights shows that the integral is a weighted sum of integrand values): the
+    integrand of each call is applied to symbolic (xi1, xi2, gap) with an opaque f, and the call returns  sum_m c_m M[segments | m]  over the
+    monomials m of that polynomial.  The nodal field must then be, node by node, the sum over the (B segment, neighbour) pairs of the integral of
+    f(gap) N_node(xi) with the nodal shape functions 1 - xi (first node) and xi (second node) of the B segment -- however the code splits it."""
     rule = "O4/T5-mortar-assembly-pairing"
     asm = ctx.need(f"{MC}:assembly_mortar_integral")
+    iwm = ctx.need(f"{MC}:integrate_with_mortar")
+    mod = ctx.need_module(MC)
+    X, U = sym_array("X", (6, 2)), sym_array("U", (6, 2))
+    connsA, connsB = [(0, 1), (1, 2)], [(3, 4), (4, 5)]
+    neigh = [(0, 1), (1, 0)]
+    I = SymInterp(ctx.repo, Sample({}))
+    calls = []
+    fnormal = PyFunc("f_average_normal", lambda it, a, k: (_ for _ in ()).throw(EvalError("the common normal is not needed for the assembly")))
+    fint = PyFunc("f_integrand", lambda it, a, k: atom(f"fint[{key_of(it.num(a[0]))}]"))
+    x1, x2, gp = atom("xi1"), atom("xi2"), atom("gap")
+    fg = atom(f"fint[{key_of(gp)}]")
+    cons3 = ("scatter:first-node<-(1-xi)", "scatter:second-node<-xi", "both-nodes-assembled")
+    state = {"bad_coords": None}
 
-    def kids(sc):
-        return [c for c in sc.children if c.kind == "function"]
-    def vmapped(sc):
-        """the nested function of `sc` that is mapped (jax.vmap(f, ...)(...)) by a statement of sc itself"""
-        names = set()
-        for st_ in sc.node.body:
-            for c_ in ast.walk(st_) if not isinstance(st_, ast.FunctionDef) else []:
-                if isinstance(c_, ast.Call) and (dotted(c_.func) or "").split(".")[-1] == "vmap" and c_.args and isinstance(c_.args[0], ast.Name):
-                    names.add(c_.args[0].id)
-        return [k for k in kids(sc) if k.name in names]
-    outer = vmapped(asm)
-    if len(outer) != 1 or len(vmapped(outer[0])) != 1:
-        ctx.undecided(rule, asm, None, construct="structure", detail="nested per-segment / per-pair functions not found")
+    def node_of(ex, ey):
+        hit = [n for n in range(6) if same(ex, X.data[2 * n] + U.data[2 * n]) and same(ey, X.data[2 * n + 1] + U.data[2 * n + 1])]
+        if not hit:
+            # the node is recognised by its reference coordinates; what is added to them is not its displacement
+            noX = lambda v: not any(a.startswith("X") for a in v.a.atoms())
+            hit = [n for n in range(6) if noX(ex - X.data[2 * n]) and noX(ey - X.data[2 * n + 1])]
+            if len(hit) == 1:
+                state["bad_coords"] = state["bad_coords"] or (f"a segment handed to integrate_with_mortar has the end point `({show(ex, 40)}, {show(ey, 40)})`, which is not the "
+                                                              f"deformed position X{hit[0]} + U{hit[0]} of the node {hit[0]}")
+        if len(hit) != 1:
+            raise EvalError("a segment handed to integrate_with_mortar is not made of the (deformed) coordinates of two nodes")
+        return hit[0]
+
+    def functional(segs, smoothing, w):
+        """linear extension: the integral over the pair `segs` of the polynomial w(xi1, xi2, gap)"""
+        if not isinstance(w, Dual):
+            raise EvalError(f"the integrand of a mortar integral is not scalar: {show(w, 80)}")
+        r = _A.norm(w.a)
+        den = "" if r.d.is_const() else f" / ({r.d!r})"
+        scale = r.d.const_value() if r.d.is_const() else 1
+        tot = Dual(0)
+        for m, c in r.n.t.items():
+            mono = "*".join(k if e == 1 else f"{k}^{e}" for k, e in m) or "1"
+            tot = tot + Dual(F(c) / F(scale)) * atom(f"M[{segs[0]}{segs[1]} s={smoothing} | {mono}{den}]")
+        return tot
+
+    def mortar(it, args, kw):
+        ps = iwm.params()
+        b = dict(zip(ps, args))
+        b.update(kw)
+        for p in ps:
+            if p not in b and iwm.default_of(p) is not None:
+                b[p] = it.eval(iwm.default_of(p), it.module_env(iwm.module))
+        edges = [(p, it.num(v)) for p, v in b.items() if isinstance(v, Arr) and v.shape == (2, 2)]
+        funcs = [v for v in b.values() if isinstance(v, (Closure, PyFunc, S.Partial, S.VMap)) and v is not fnormal]
+        rest = [v for p, v in b.items() if not isinstance(v, (Arr, Closure, PyFunc, S.Partial, S.VMap))]
+        if len(edges) != 2 or len(funcs) != 1 or len(rest) > 1:
+            raise EvalError("integrate_with_mortar is not called with two segments, a normal, one integrand and a smoothing size")
+        edges.sort(key=lambda pe: ps.index(pe[0]))
+        segs = tuple(tuple(node_of(e.data[2 * row], e.data[2 * row + 1]) for row in range(2)) for (_, e) in edges)
+        smoothing = key_of(it.num(rest[0])) if rest else "default"
+        w = it.num(it.call(funcs[0], [x1, x2, gp], {}))
+        calls.append({"segs": segs, "smoothing": smoothing, "w": w})
+        return functional(segs, smoothing, w)
+    I.special[iwm.qualname] = mortar
+    roles = {"coords": X, "disp": U, "a": int_array([list(s) for s in connsA]), "b": int_array([list(s) for s in connsB]),
+             "neigh": int_array([list(s) for s in neigh]), "normal": fnormal, "integrand": fint}
+    pats = (("coords", ("coord",)), ("disp", ("disp",)), ("a", ("connsa", "segmentsa", "segsa")), ("b", ("connsb", "segmentsb", "segsb")),
+            ("neigh", ("neighbor", "neighbour")), ("normal", ("normal",)), ("integrand", ("integrand",)))
+    ref = ("coords", "disp", "a", "b", "neigh", "normal", "integrand")
+    try:
+        kwargs = {}
+        named = {p: next((r for r, ps_ in pats if any(x in p.lower() for x in ps_)), None) for p in asm.params()}
+        for k, p in enumerate(asm.params()):
+            role = named[p]
+            if role is None and len(asm.params()) == len(ref) and ref[k] not in named.values():
+                role = ref[k]
+            if role is None and asm.default_of(p) is None:
+                raise EvalError(f"parameter `{p}` of assembly_mortar_integral has no recognised role")
+            if role is not None:
+                kwargs[p] = roles[role]
+        out = I.num(I.call(I.module_value(mod, "assembly_mortar_integral"), [], kwargs))
+        if not (isinstance(out, Arr) and out.shape == (6,)):
+            raise EvalError(f"the nodal field is {show(out, 80)}")
+        if not calls:
+            raise EvalError("integrate_with_mortar is never called")
+        if len({c["smoothing"] for c in calls}) != 1:
+            raise EvalError("the mortar integrals of the assembly use different smoothing sizes")
+        # ---- specification: per (B segment, neighbour) pair, in the orientation the code integrates it
+        want = [Dual(0)] * 6
+        parts = {"first": [Dual(0)] * 6, "second": [Dual(0)] * 6}
+        smoothing = calls[0]["smoothing"]
+        for sB, seg in enumerate(connsB):
+            for j in neigh[sB]:
+                orient = {c["segs"] for c in calls if set(c["segs"]) == {seg, connsA[j]}}
+                if len(orient) != 1:
+                    raise EvalError(f"the pair of segments {seg}, {connsA[j]} is integrated {'in both orientations' if orient else 'nowhere'}")
+                segs = orient.pop()
+                xi = x1 if segs[0] == seg else x2
+                for loc, (kind, N) in enumerate((("first", Dual(1) - xi), ("second", xi))):
+                    term = functional(segs, smoothing, fg * N)
+                    want[seg[loc]] = want[seg[loc]] + term
+                    parts[kind][seg[loc]] = parts[kind][seg[loc]] + term
+    except INTERP_ERRORS as ex:
+        for cons in cons3:
+            ctx.undecided(rule, asm, None, construct=cons, detail=f"cannot interpret: {ex}")
+        _touch(ctx, I)
         return
-    per_seg, per_pair = outer[0], vmapped(outer[0])[0]
+    _touch(ctx, I)
+    ctx.decide(rule, state["bad_coords"] is None, asm, None, construct="segments=coords+disp", detail="the segments of every mortar integral are the deformed node coordinates",
+               bad_detail=state["bad_coords"])
+    # node 3 is only the first node of a B segment, node 5 only the second node of one, node 4 is both
+    for cons, kind, node, seg in ((cons3[0], "first", 3, connsB[0]), (cons3[1], "second", 5, connsB[1])):
+        v = judge(out.data[node], want[node])
+        N = "1 - xi" if kind == "first" else "xi"
+        ctx.decide(rule, v, asm, None, construct=cons, detail=f"node {node}, the {kind} node of the segment {seg}, receives the integrals of f(gap) ({N}) over its segment pairs",
+                   bad_detail=f"node {node} is the {kind} node of the segment {seg}: it receives `{show(out.data[node], 200)}`; expected the integrals of f(gap) * ({N}) over the pairs "
+                              f"with its neighbours, `{show(want[node], 200)}` (M[segments | m] = mortar integral of the monomial m; nodal areas and gaps are swapped on "
+                              f"partially covered segments)" + ("" if v is False else _NOT_NF))
+    v = judge(out, Arr(want, (6,)))
+    ctx.decide(rule, v, asm, None, construct=cons3[2], detail="every node receives, for every neighbour pair of its segments, the integral weighted with its own shape function",
+               bad_detail=f"the nodal field `{show(out, 260)}` is not the sum over the segment pairs of the shape-function weighted integrals `{show(Arr(want, (6,)), 260)}`" +
+                          ("" if v is False else _NOT_NF))
 
-    def weight_tag(call):
-        from .common import defs_to_lambdas
-        cand = list(call.args) + [k.value for k in call.keywords]
-        lam = []
-        for a in cand:
-            for host in (per_pair, per_seg, asm):
-                b = defs_to_lambdas(a, host)
-                if isinstance(b, ast.Lambda):
-                    lam.append(b)
-                    break
-        if not lam:
-            return None
-        lam = lam[-1]
-        p0 = lam.args.args[0].arg
-        has_1m = any(isinstance(k, ast.BinOp) and isinstance(k.op, ast.Sub) and const_value(k.left) == 1 and isinstance(k.right, ast.Name) and k.right.id == p0
-                     for k in ast.walk(lam.body))
-        uses = any(isinstance(k, ast.Name) and k.id == p0 for k in ast.walk(lam.body))
-        return "L" if has_1m else ("R" if uses else None)
 
-    def run_fn(sc, env_in, top=False):
-        env = dict(env_in)
-        seg = sc.params()[0]
+# ====================================================================================================================== O4 mortar weights
 
-        def tag(e):
-            if isinstance(e, ast.Name):
-                return env.get(e.id)
-            if isinstance(e, ast.Subscript) and isinstance(e.value, ast.Name) and e.value.id == seg and const_value(e.slice) in (0, 1):
-                return f"n{const_value(e.slice)}"
-            if isinstance(e, ast.Tuple):
-                return tuple(tag(x) for x in e.elts)
-            if isinstance(e, ast.Call):
-                last = (dotted(e.func) or "").split(".")[-1]
-                if last == "integrate_with_mortar":
-                    return weight_tag(e)
-                if last in ("sum", "nansum") and e.args:
-                    return tag(e.args[0])
-                if isinstance(e.func, ast.Call) and (dotted(e.func.func) or "").split(".")[-1] == "vmap" and e.func.args and isinstance(e.func.args[0], ast.Name):
-                    return env.get("@ret:" + e.func.args[0].id)
-            return None
-        for st in sc.node.body:
-            if isinstance(st, ast.FunctionDef):
-                inner = [c for c in sc.children if c.node is st]
-                if inner:
-                    env["@ret:" + st.name] = run_fn(inner[0], env)
-            elif isinstance(st, ast.Assign) and len(st.targets) == 1:
-                t, v = st.targets[0], tag(st.value)
-                if isinstance(t, ast.Name):
-                    env[t.id] = v
-                elif isinstance(t, ast.Tuple) and isinstance(v, tuple) and len(v) == len(t.elts):
-                    for a, b in zip(t.elts, v):
-                        if isinstance(a, ast.Name):
-                            env[a.id] = b
-            elif isinstance(st, ast.Return):
-                return env if top else tag(st.value)
-        return env
-    env = run_fn(asm, {}, top=True)
-    if not isinstance(env, dict):
-        ctx.undecided(rule, asm, None, construct="structure", detail="assembly function returned before the scatter")
-        return
-    # scatter-adds: X.at[A].add(B)
-    adds = [c for c in ast.walk(asm.node) if isinstance(c, ast.Call) and isinstance(c.func, ast.Attribute) and c.func.attr == "add"
-            and isinstance(c.func.value, ast.Subscript) and isinstance(c.func.value.value, ast.Attribute) and c.func.value.value.attr == "at"
-            and not any(c in ast.walk(k.node) for k in kids(asm))]
-    seen = set()
-    for c in adds:
-        a, b = c.func.value.slice, c.args[0]
-        ta = env.get(a.id) if isinstance(a, ast.Name) else None
-        tb = env.get(b.id) if isinstance(b, ast.Name) else None
-        ok = (ta, tb) in (("n0", "L"), ("n1", "R"))
-        seen.add((ta, tb))
-        ctx.decide(rule, ok if None not in (ta, tb) else None, asm, c, construct=f"scatter:{ta}<-{tb}",
-                   detail=f"`{src(c)[:60]}` adds the {'(1-xi)' if tb == 'L' else 'xi'}-weighted integrals to the {'first' if ta == 'n0' else 'second'} nodes",
-                   bad_detail=f"`{src(c)[:80]}` adds the {'(1-xi)' if tb == 'L' else 'xi'}-weighted segment integrals to the {'first' if ta == 'n0' else 'second'} "
-                              f"node of each segment: the shape function 1-xi belongs to node 0 and xi to node 1 (nodal areas and gaps are swapped on partially covered segments)")
-    ok = {("n0", "L"), ("n1", "R")} <= seen
-    ctx.decide(rule, ok, asm, None, construct="both-nodes-assembled", detail="both nodes of every segment receive their integral",
-               bad_detail=f"scatter pairs found: {sorted(map(str, seen))}; both (node0, 1-xi) and (node1, xi) contributions are required")
+def _ramp(x, l, env):
+    """the C1 ramp S(x; l) of the specification on the arm that contains the sample value of x"""
+    xv, lv = env(x.a), env(l.a)
+    if xv is None or lv is None:
+        raise EvalError("no sample value for the argument of the smoothing ramp")
+    if xv < lv:
+        return x * x / (Dual(2) * l)
+    if xv > 1 - lv:
+        return Dual(1) - l - (Dual(1) - x) * (Dual(1) - x) / (Dual(2) * l)
+    return x - l / Dual(2)
 
 
 def o4_mortar(ctx):
+    """integrate_with_active_mortar on symbolic end parameters (xiA, xiB, g), lengths and smoothing size, with an opaque integrand f: the result must be
+    sum_q W w_q f(xiA(q), xiB(q), g(q)) over the points q of a Gauss rule that is exact for quadratic integrands, with the linear interpolations of the
+    end values and W = 1/2 (lengthA (S(xiA_1) - S(xiA_0)) + lengthB |S(xiB_1) - S(xiB_0)|)."""
     rule = "O4/T5-mortar-weights"
     sc = ctx.need(f"{MC}:integrate_with_active_mortar")
-    cfg = cfg_of(sc)
-    r = cfg.returns()
-    if not r:
-        raise Incomplete("integrate_with_active_mortar has no return")
-    ps = sc.params()
-    xiA, xiB, g, lA, lB, fn, sm = ps
-    e = expand(cfg, r[0], r[0].ast.value)
-    rule_deg = None
-    for c in ast.walk(sc.node):
-        if isinstance(c, ast.Call) and (dotted(c.func) or "").endswith("create_quadrature_rule_1D"):
-            for k in c.keywords:
-                if k.arg == "degree":
-                    rule_deg = const_value(k.value)
-            if c.args:
-                rule_deg = const_value(c.args[0])
-    Q = "QuadratureRule.create_quadrature_rule_1D(degree=2)"
-    # the fully expanded return must be dot(0.5*(wA + wB), vmap(f)(xiA_q, xiB_q, g_q)); names of temporaries play no role
-    W = F_ = None
-    if isinstance(e, ast.Call) and (dotted(e.func) or "").endswith("dot") and len(e.args) == 2:
-        W, F_ = e.args
-    wa = wb = None
-    if isinstance(W, ast.BinOp) and isinstance(W.op, ast.Mult):
-        for x_, y_ in ((W.left, W.right), (W.right, W.left)):
-            if const_value(x_) == 0.5 and isinstance(y_, ast.BinOp) and isinstance(y_.op, ast.Add):
-                wa, wb = y_.left, y_.right
-    ctx.decide(rule, wa is not None, sc, r[0].ast, construct="average-of-both-sides", detail="dot(0.5*(wA + wB), f(xiA_q, xiB_q, g_q))",
-               bad_detail=f"mortar integral is `{src(e)[:160]}`, not dot(0.5*(weights of side A + weights of side B), integrand values)")
-    tA = f"{lA} * (smooth_linear({xiA}, {sm})[1] - smooth_linear({xiA}, {sm})[0]) * {Q}.wgauss"
-    tB = f"{lB} * jnp.abs(smooth_linear({xiB}, {sm})[1] - smooth_linear({xiB}, {sm})[0]) * {Q}.wgauss"
-    if wa is not None and not sem_same(wa, tA, sc) and sem_same(wb, tA, sc):
-        wa, wb = wb, wa
-    ctx.decide(rule, wa is not None and sem_same(wa, tA, sc), sc, None, construct="weight-A", detail="lengthA * (smooth(xiA)[1] - smooth(xiA)[0]) * w",
-               bad_detail=f"side-A weights are `{src(wa)[:140] if wa is not None else '?'}`")
-    ctx.decide(rule, wb is not None and sem_same(wb, tB, sc), sc, None, construct="weight-B", detail="lengthB * |smooth(xiB)[1] - smooth(xiB)[0]| * w",
-               bad_detail=f"side-B weights are `{src(wb)[:140] if wb is not None else '?'}`")
-    ctx.decide(rule, rule_deg == 2, sc, None, construct="gauss-rule-degree", detail="two-point Gauss rule (degree 2)", bad_detail=f"edge quadrature degree is {rule_deg}")
-    # quadrature parameters interpolate the same fields linearly
-    args_ = F_.args if isinstance(F_, ast.Call) and isinstance(F_.func, ast.Call) and (dotted(F_.func.func) or "").endswith("vmap") \
-        and F_.func.args and same(F_.func.args[0], fn) and len(F_.args) == 3 else [None, None, None]
-    for a_, fld, nm in zip(args_, (xiA, xiB, g), ("quadXiA", "quadXiB", "gs")):
-        ok = a_ is not None and sem_same(a_, f"jax.vmap(eval_linear_field_on_edge, (None, 0))({fld}, {Q}.xigauss)", sc)
-        ctx.decide(rule, ok, sc, None, construct=f"{nm}:linear-interpolation-of-{fld}", detail=f"argument interpolates {fld} at the Gauss points",
-                   bad_detail=f"the integrand's argument for {fld} is `{src(a_)[:120] if a_ is not None else '?'}`, not the linear interpolation of {fld} at the Gauss points")
-    el = ctx.need(f"{MC}:eval_linear_field_on_edge")
-    rr = el.returns()
-    A = Algebra()
-    try:
-        ok = len(rr) == 1 and A.equal(A.lower(rr[0]), A.lower(ast.parse("field[0]*(1.0-xi) + field[1]*xi", mode="eval").body))
-    except NotPolynomial:
-        ok = None
-    ctx.decide(rule, ok, el, rr[0] if rr else None, construct="eval_linear_field_on_edge", detail="f0 (1-xi) + f1 xi",
-               bad_detail=f"eval_linear_field_on_edge returns `{src(rr[0]) if rr else '?'}`")
+    mod = ctx.need_module(MC)
+    if len(sc.params()) != 7:
+        raise Incomplete("integrate_with_active_mortar no longer has the signature (xiA, xiB, g, lengthA, lengthB, f, smoothing)")
+    a, b, g = [atom("a0"), atom("a1")], [atom("b0"), atom("b1")], [atom("g0"), atom("g1")]
+    LA, LB, l = atom("LA"), atom("LB"), atom("l")
+    regions = [("interior, B reversed", (F(1, 5), F(3, 5)), (F(7, 10), F(3, 10))),
+               ("both smoothing arms", (F(1, 20), F(19, 20)), (F(24, 25), F(1, 50))),
+               ("interior, B increasing", (F(3, 10), F(1, 2)), (F(1, 5), F(4, 5))),
+               ("A reversed", (F(3, 5), F(1, 5)), (F(2, 5), F(9, 10)))]
+    fails = {}
+    notes = {}
+    undec = {}
+    names = ["average-of-both-sides", "weight-A", "weight-B", "gauss-rule-degree", "integrand-argument-xiA:linear-interpolation",
+             "integrand-argument-xiB:linear-interpolation", "integrand-argument-g:linear-interpolation"]
 
+    def fail(cons, msg):
+        fails.setdefault(cons, msg)
+
+    def unsure(cons, msg):
+        undec.setdefault(cons, msg)
+
+    for (lab, av, bv) in regions:
+        env = {"a0": av[0], "a1": av[1], "b0": bv[0], "b1": bv[1], "g0": F(1, 3), "g1": F(-1, 4), "LA": F(2), "LB": F(3), "l": F(1, 10)}
+        rules_made = []
+        frec = []
+
+        def resolver(name, env=env, rules_made=rules_made):
+            for (xi, w) in rules_made:
+                for k, (x, ww) in enumerate(zip(xi, w)):
+                    if name == x:
+                        return F(k + 1, len(xi) + 1)
+                    if name == ww:
+                        return F(1, len(xi))
+            if name.startswith("F["):
+                return F(1)
+            return None
+        smp = Sample(env, [resolver])
+        I = SymInterp(ctx.repo, smp)
+
+        def chk(cons, got, want, msg, smp=smp):
+            v = judge(got, want, smp)
+            if v is False:
+                fail(cons, msg)
+            elif v is None:
+                unsure(cons, msg + _NOT_NF)
+
+        def roots(it, args, kw, rules_made=rules_made):
+            n = it.as_int(args[0])
+            k = len(rules_made)
+            xi = [f"gq{k}_{i}" for i in range(n)]
+            w = [f"gw{k}_{i}" for i in range(n)]
+            rules_made.append((xi, w))
+            return (Arr([atom(x) for x in xi], (n,)), Arr([atom(x) for x in w], (n,)))
+        I.ext_special["scipy.special.roots_sh_legendre"] = roots
+        sl = ctx.repo.find(f"{MC}:smooth_linear")
+        if sl is not None and len(sl.params()) == 2:
+            # assume / guarantee: T7-smooth_linear (C18) proves that smooth_linear is the C1 ramp S of the specification; here its calls are S
+            def ramp(it, args, kw, sl=sl, smp=smp):
+                bd = dict(zip(sl.params(), args))
+                bd.update(kw)
+                x, ll = it.num(bd[sl.params()[0]]), it.num(bd[sl.params()[1]])
+                if not isinstance(ll, Dual):
+                    raise EvalError("smooth_linear with an array smoothing size")
+                return x.map(lambda v: _ramp(v, ll, smp)) if isinstance(x, Arr) else _ramp(x, ll, smp)
+            I.special[sl.qualname] = ramp
+
+        def integrand(it, args, kw, frec=frec):
+            if len(args) != 3 or kw:
+                raise EvalError("the integrand is not called with (xiA, xiB, g)")
+            vals = [it.num(x) for x in args]
+            if not all(isinstance(x, Dual) for x in vals):
+                raise EvalError("the integrand is called with arrays")
+            name = f"F[{len(frec)}]"
+            frec.append((name, vals))
+            return atom(name)
+        try:
+            out = I.num(I.call(I.module_value(mod, "integrate_with_active_mortar"),
+                               [Arr(list(a), (2,)), Arr(list(b), (2,)), Arr(list(g), (2,)), LA, LB, PyFunc("f", integrand), l], {}))
+            if isinstance(out, Arr) and out.size() == 1:
+                out = out.data[0]
+            if not isinstance(out, Dual):
+                raise EvalError("the mortar integral is an array")
+            if not frec:
+                raise EvalError("the integrand is never evaluated")
+            pts = [(x, w) for (xi, w) in rules_made for x, w in zip(xi, w)]
+            if not pts:
+                raise EvalError("no Gauss rule from QuadratureRule.create_quadrature_rule_1D was used")
+        except INTERP_ERRORS as ex:
+            for cons in names:
+                undec.setdefault(cons, f"[{lab}] cannot interpret: {ex}")
+            _touch(ctx, I)
+            continue
+        _touch(ctx, I)
+        dSA = _ramp(a[1], l, smp) - _ramp(a[0], l, smp)
+        dSB = _ramp(b[1], l, smp) - _ramp(b[0], l, smp)
+        if smp(dSB.a) < 0:
+            dSB = -dSB
+        used = []
+        rest = out
+        for (name, (xa, xb, gg)) in frec:
+            c = coeff(out, name)
+            if c is None:
+                fail("average-of-both-sides", f"[{lab}] the mortar integral `{show(out.a, 160)}` is not linear in the values of the integrand")
+                continue
+            rest = rest - c * atom(name)
+            if rat_is_zero(c.a):
+                continue
+            lin = lambda f, x: f[0] * (Dual(1) - atom(x)) + f[1] * atom(x)
+            verd = [(judge(xa, lin(a, x), smp), x, w) for (x, w) in pts]
+            hit = [(x, w) for (v, x, w) in verd if v is True]
+            if len(hit) != 1:
+                if any(v is None for (v, x, w) in verd):
+                    unsure("integrand-argument-xiA:linear-interpolation", f"[{lab}] xiA = `{show(xa.a, 120)}` equals a Gauss-point interpolation at the sample only")
+                else:
+                    fail("integrand-argument-xiA:linear-interpolation", f"[{lab}] the integrand is evaluated at xiA = `{show(xa.a, 120)}`, which is not xiA_0 (1 - q) + xiA_1 q at a point q of the Gauss rule")
+                continue
+            x, w = hit[0]
+            used.append(x)
+            chk("integrand-argument-xiB:linear-interpolation", xb, lin(b, x), f"[{lab}] at the Gauss point {x} the integrand is evaluated at xiB = `{show(xb.a, 120)}`, not xiB_0 (1 - q) + xiB_1 q")
+            chk("integrand-argument-g:linear-interpolation", gg, lin(g, x), f"[{lab}] at the Gauss point {x} the integrand is evaluated at g = `{show(gg.a, 120)}`, not g_0 (1 - q) + g_1 q")
+            cA, cB = coeff(c, "LA"), coeff(c, "LB")
+            if cA is None or cB is None:
+                fail("average-of-both-sides", f"[{lab}] the weight of the integrand at the Gauss point {x} is `{show(c.a, 160)}`, which is not linear in the two segment lengths")
+                continue
+            chk("average-of-both-sides", c, cA * LA + cB * LB, f"[{lab}] the weight of the integrand at the Gauss point {x} is `{show(c.a, 160)}`, not 1/2 (lengthA * dA + lengthB * dB) * w")
+            chk("weight-A", cA, atom(w) * dSA / Dual(2), f"[{lab}] side-A share of the weight at the Gauss point {x} is lengthA * `{show(cA.a, 140)}`; expected 1/2 w (S(xiA_1) - S(xiA_0)) = "
+                                                          f"`{show((atom(w) * dSA / Dual(2)).a, 120)}` (signed)")
+            chk("weight-B", cB, atom(w) * dSB / Dual(2), f"[{lab}] side-B share of the weight at the Gauss point {x} is lengthB * `{show(cB.a, 140)}`; expected 1/2 w |S(xiB_1) - S(xiB_0)| = "
+                                                          f"`{show((atom(w) * dSB / Dual(2)).a, 120)}`")
+        if not rat_is_zero(rest.a):
+            fail("average-of-both-sides", f"[{lab}] the mortar integral contains the extra term `{show(rest.a, 140)}` besides the weighted values of the integrand")
+        one_rule = [r for r in rules_made if set(r[0]) & set(used)]
+        if len(one_rule) == 1 and sorted(used) == sorted(one_rule[0][0]):
+            n = len(one_rule[0][0])
+            if n < 2:
+                fail("gauss-rule-degree", f"[{lab}] the integral uses a {n}-point Gauss rule (exact up to degree {2 * n - 1}); the nodal integrands N(xi) * g(xi) are quadratic")
+            notes["gauss-rule-degree"] = f"{n}-point Gauss rule, every point used once with its own weight"
+        elif not any(k.startswith("integrand-argument-xiA") for k in fails):
+            fail("gauss-rule-degree", f"[{lab}] the integrand is evaluated at the Gauss points {sorted(used)}; a complete rule {[r[0] for r in rules_made]} is required")
+    details = {"average-of-both-sides": "sum_q 1/2 (lengthA dA + lengthB dB) w_q f(...)", "weight-A": "dA = S(xiA_1) - S(xiA_0) (signed)",
+               "weight-B": "dB = |S(xiB_1) - S(xiB_0)|", "gauss-rule-degree": notes.get("gauss-rule-degree", "Gauss rule exact for quadratics")}
+    for cons in names:
+        v = False if cons in fails else (None if cons in undec else True)
+        ctx.decide(rule, v, sc, None, construct=cons, detail=details.get(cons, "linear interpolation of the end values at the Gauss points") + f" ({len(regions)} overlap regions)",
+                   bad_detail=fails.get(cons) or undec.get(cons))
+    # the public interpolation helper, when there is one
+    el = ctx.repo.find(f"{MC}:eval_linear_field_on_edge")
+    if el is not None and len(el.params()) == 2:
+        ctx.touch(el)
+        I = SymInterp(ctx.repo, Sample({}))
+        f0, f1, x = atom("f0"), atom("f1"), atom("xi")
+        try:
+            for label, fld in (("array", Arr([f0, f1], (2,))),):
+                out = I.num(I.call(I.module_value(mod, "eval_linear_field_on_edge"), [fld, x], {}))
+            ok = judge(out, f0 * (Dual(1) - x) + f1 * x) if isinstance(out, Dual) else False
+            ctx.decide(rule, ok, el, None, construct="eval_linear_field_on_edge", detail="f0 (1-xi) + f1 xi",
+                       bad_detail=f"eval_linear_field_on_edge(field, xi) returns `{show(out, 120)}`, not field[0] (1 - xi) + field[1] xi")
+        except INTERP_ERRORS as ex:
+            ctx.undecided(rule, el, None, construct="eval_linear_field_on_edge", detail=f"cannot interpret: {ex}")
+        finally:
+            _touch(ctx, I)
+
+
+# ====================================================================================================================== self-test variants
 
 def variants(repo):
     from optilint.selftest import Variant, sub, sub_in_func, alpha_rename, reformat
@@ -481,9 +1295,10 @@ def variants(repo):
     M = "optimism/contact/MortarContact.py"
     P = "optimism/contact/PenaltyContact.py"
     L = "optimism/contact/LevelsetConstraint.py"
-    S = "optimism/Surface.py"
+    S_ = "optimism/Surface.py"
+    C = "optimism/contact/Contact.py"
     return [
-        Variant("flip one sibling's normal", S, sub_in_func("compute_normal", "    normal = np.array([tangent[1], -tangent[0]])", "    normal = np.array([-tangent[1], tangent[0]])"), "O1/T6-normal-siblings"),
+        Variant("flip one sibling's normal", S_, sub_in_func("compute_normal", "    normal = np.array([tangent[1], -tangent[0]])", "    normal = np.array([-tangent[1], tangent[0]])"), "O1/T6-normal-siblings"),
         Variant("mortar normal not normalised by itself", M, sub_in_func("compute_normal", "    return normal / jnp.linalg.norm(normal)", "    return normal / jnp.linalg.norm(edgeCoords[1])"), "O1/T6-normal-siblings"),
         Variant("mesh normal swapped components", "optimism/Mesh.py", sub_in_func("compute_edge_vectors", "    normal = np.array([tangent[1], -tangent[0]])", "    normal = np.array([tangent[0], -tangent[1]])"), "O1/T6-normal-siblings"),
         Variant("t>1 paired with first end point", E, sub("np.sqrt(norm_squared(edge[1]-p)) * sgn", "np.sqrt(norm_squared(edge[0]-p)) * sgn"), "O2/T5-closest-point"),
@@ -497,10 +1312,370 @@ def variants(repo):
         Variant("mortar pair results unpacked in the wrong order", M, sub("        gapAreaLeft, gapAreaRight = jax.vmap(compute_quantities_for_segment_pair", "        gapAreaRight, gapAreaLeft = jax.vmap(compute_quantities_for_segment_pair"), "O4/T5-mortar-assembly-pairing"),
         Variant("mortar weights swapped", M, sub("lambda xiA, xiB, gap: f_integrand(gap) * (1.0-xiA), 1e-9)", "lambda xiA, xiB, gap: f_integrand(gap) * xiA, 1e-9)"), "O4/T5-mortar-assembly-pairing"),
         Variant("mortar scatter to the wrong node", M, sub("    nodalGapField = nodalGapField.at[nodesRight].add(gapsRight)", "    nodalGapField = nodalGapField.at[nodesLeft].add(gapsRight)"), "O4/T5-mortar-assembly-pairing"),
-        Variant("closest edge by signed distance", "optimism/contact/Contact.py", sub("        i = np.argmin( np.abs(cppDists) )\n        return edgesM[i]", "        i = np.argmin(cppDists)\n        return edgesM[i]"), "O2/T6-closest-by-absolute-distance"),
+        Variant("closest edge by signed distance", C, sub("        i = np.argmin( np.abs(cppDists) )\n        return edgesM[i]", "        i = np.argmin(cppDists)\n        return edgesM[i]"), "O2/T6-closest-by-absolute-distance"),
         Variant("alpha-rename assembly", M, alpha_rename("assembly_mortar_integral"), None),
         Variant("mortar weight B from xiA", M, sub("    xiBsmooth = smooth_linear(xiB, relativeSmoothingSize)", "    xiBsmooth = smooth_linear(xiA, relativeSmoothingSize)"), "O4/T5-mortar-weights"),
         Variant("mortar weight A with abs dropped on B", M, sub("    dxiB = jnp.abs(xiBsmooth[1] - xiBsmooth[0])", "    dxiB = xiBsmooth[1] - xiBsmooth[0]"), "O4/T5-mortar-weights"),
         Variant("reformat EdgeCpp", E, reformat(), None),
         Variant("reformat PenaltyContact", P, reformat(), None),
+    ] + _more_variants(Variant, sub, sub_in_func, E, M, P, L, S_, C)
+
+
+_P_CPP_CLIP = """
+def _line_parameter(edge, p):
+    start, end = edge
+    direction = end - start
+    return dot(direction, p - start) / dot(direction, direction)
+
+
+def cpp(edge, p):
+    s = np.clip(_line_parameter(edge, p), 0.0, 1.0)
+    return edge[0] + s*(edge[1] - edge[0]), s
+"""
+
+_P_CPP_DISTANCE_SELECT = """
+def cpp_distance(edge, p):
+    normal = Surface.compute_normal(edge)
+    point, s = cpp_line(edge, p)
+    signedNormalDistance = dot(normal, p - point)
+    side = np.where(signedNormalDistance < 0, -1.0, 1.0)
+    distanceToEnds = vmap(lambda end: np.linalg.norm(end - p))(edge)
+    return np.select([s < 0., s > 1.], [side*distanceToEnds[0], side*distanceToEnds[1]], signedNormalDistance)
+"""
+
+_B_CPP_DISTANCE_SELECT = _P_CPP_DISTANCE_SELECT.replace("[side*distanceToEnds[0], side*distanceToEnds[1]]", "[side*distanceToEnds[1], side*distanceToEnds[0]]")
+
+_P_CPP_DISTANCE_GUARDS = """
+def _end_point_distance(end, p, side):
+    return side * np.sqrt(norm_squared(p - end))
+
+
+def cpp_distance(edge, p):
+    first, second = edge[0], edge[1]
+    n = Surface.compute_normal(edge)
+    foot, s = cpp_line(edge=edge, p=p)
+    d = dot(p - foot, n)
+    side = np.sign(d)
+    side = np.where(side == 0, 1.0, side)
+    beyond = _end_point_distance(second, p, side)
+    before = _end_point_distance(first, p, side)
+    return np.where(s <= 1., np.where(s >= 0., d, before), beyond)
+"""
+
+_P_PENALTY_VECTORISED = """
+def compute_edge_penalty_contact_energy(levelset, mesh, dispField, quadRule, edge, stiffness):
+    nodes = mesh.conns[edge[0]][np.array([edge[1], (edge[1]+1)%3])]
+    refCoords = mesh.coords[nodes]
+    curCoords = refCoords + dispField[nodes]
+    xi = quadRule.xigauss
+    points = (1.0 - xi)[:,None]*curCoords[0] + xi[:,None]*curCoords[1]
+    phi = levelset(points)
+    penetration = np.where(phi < 0.0, -phi, 0.0)
+    return stiffness*np.linalg.norm(refCoords[1] - refCoords[0])*np.dot(quadRule.wgauss, penetration**2)
+"""
+
+_B_PENALTY_CURRENT_LENGTH = _P_PENALTY_VECTORISED.replace("np.linalg.norm(refCoords[1] - refCoords[0])", "np.linalg.norm(curCoords[1] - curCoords[0])")
+_B_PENALTY_WRAP = _P_PENALTY_VECTORISED.replace("(edge[1]+1)%3", "(edge[1]+2)%3")
+
+_P_PENALTY_TOTAL_CLOSURE = """
+def compute_total_penalty_contact_energy(levelset, dispField, mesh, quadRule, edges, stiffness):
+    def energy_of(edge):
+        return compute_edge_penalty_contact_energy(levelset, mesh, dispField, quadRule, edge, stiffness=stiffness)
+    return vmap(energy_of)(edges).sum()
+"""
+
+_P_LEVELSET_DICT = """
+def _edge_state(mesh, dispField, quadRule, edge):
+    index = Surface.get_field_index(edge, mesh.conns)
+    fields = {'reference': mesh.coords, 'displacement': dispField}
+    onEdge = {name: Surface.eval_field(field, index) for name, field in fields.items()}
+    current = sum(onEdge.values())
+    return dict(onEdge, current=current, points=QuadratureRule.eval_at_iso_points(quadRule.xigauss, current))
+
+
+def compute_edge_levelset_constraints(levelset, mesh, dispField, quadRule, edge):
+    state = _edge_state(mesh, dispField, quadRule, edge)
+    return levelset(state['points'])
+"""
+
+_P_MORTAR_ACTIVE = """
+def _overlap_measure(xi, length, smoothing, signed):
+    s = smooth_linear(xi, smoothing)
+    d = s[1] - s[0]
+    return length * (d if signed else jnp.abs(d))
+
+
+def integrate_with_active_mortar(xiA, xiB, g, lengthA, lengthB, func_of_xiA_xiB_g, relativeSmoothingSize):
+    rule = QuadratureRule.create_quadrature_rule_1D(2)
+    measure = 0.5*(_overlap_measure(xiA, lengthA, relativeSmoothingSize, True) + _overlap_measure(xiB, lengthB, relativeSmoothingSize, False))
+    fields = jnp.stack([xiA, xiB, g])
+    atPoints = jnp.outer(1.0 - rule.xigauss, fields[:, 0]) + jnp.outer(rule.xigauss, fields[:, 1])
+    values = jax.vmap(lambda row: func_of_xiA_xiB_g(row[0], row[1], row[2]))(atPoints)
+    return measure * jnp.dot(rule.wgauss, values)
+"""
+
+_B_MORTAR_ACTIVE_ABS_A = _P_MORTAR_ACTIVE.replace("_overlap_measure(xiA, lengthA, relativeSmoothingSize, True)", "_overlap_measure(xiA, lengthA, relativeSmoothingSize, False)")
+_B_MORTAR_ACTIVE_DEGREE = _P_MORTAR_ACTIVE.replace("create_quadrature_rule_1D(2)", "create_quadrature_rule_1D(1)")
+_B_MORTAR_ACTIVE_G = _P_MORTAR_ACTIVE.replace("jnp.stack([xiA, xiB, g])", "jnp.stack([xiA, xiB, xiB])")
+
+_P_ASSEMBLY_FLAT = """
+def _pair_integrals(coords, disp, segA, segB, f_average_normal, f_integrand):
+    xB = coords[segB] + disp[segB]
+    xA = coords[segA] + disp[segA]
+    shape = {0: lambda xi: 1.0 - xi, 1: lambda xi: xi}
+    return jnp.array([integrate_with_mortar(xB, xA, f_average_normal,
+                                            partial(lambda N, xiA, xiB, gap: N(xiA) * f_integrand(gap), shape[k]),
+                                            relativeSmoothingSize=1e-9) for k in (0, 1)])
+
+
+def assembly_mortar_integral(coords, disp, segmentConnsA, segmentConnsB, neighborList,
+                             f_average_normal : Callable,
+                             f_integrand : Callable):
+    def for_segment(segB, neighbors):
+        perPair = jax.vmap(lambda iA: _pair_integrals(coords, disp, segmentConnsA[iA], segB, f_average_normal, f_integrand))(neighbors)
+        return perPair.sum(axis=0)
+
+    nodal = jax.vmap(for_segment)(segmentConnsB, neighborList)
+    return jnp.zeros(disp.shape[0]).at[segmentConnsB.ravel()].add(nodal.ravel())
+"""
+
+_B_ASSEMBLY_FLAT_SWAPPED = _P_ASSEMBLY_FLAT.replace("shape = {0: lambda xi: 1.0 - xi, 1: lambda xi: xi}", "shape = {1: lambda xi: 1.0 - xi, 0: lambda xi: xi}")
+_B_ASSEMBLY_FLAT_UNDEFORMED = _P_ASSEMBLY_FLAT.replace("xB = coords[segB] + disp[segB]", "xB = coords[segB]")
+
+_P_CLOSEST_SQUARED = """
+def get_closest_distance(coordsM, point):
+    signedDists = vmap(lambda edge: EdgeCpp.cpp_distance(edge, point))(coordsM)
+    return signedDists[np.argmin(signedDists**2)]
+"""
+
+_P_TWO_CLOSEST = """
+def get_closest_two_edges(coordsM, point):
+    magnitudes = np.abs(vmap(partial(EdgeCpp.cpp_distance, p=point))(coordsM))
+    nearest = np.argmin(magnitudes)
+    masked = np.where(np.arange(magnitudes.shape[0]) == nearest, np.inf, magnitudes)
+    return np.stack([coordsM[nearest], coordsM[np.argmin(masked)]])
+"""
+
+
+_P_CPP_DISTANCE_NORM = """
+def cpp_distance(edge, p):
+    normal = Surface.compute_normal(edge)
+    onLine, _ = cpp_line(edge, p)
+    side = np.where(dot(normal, p - onLine) < 0, -1.0, 1.0)
+    closest, _ = cpp(edge, p)
+    return side * np.linalg.norm(p - closest)
+"""
+
+_B_CPP_DISTANCE_NORM_SIGN0 = _P_CPP_DISTANCE_NORM.replace("np.where(dot(normal, p - onLine) < 0, -1.0, 1.0)", "np.sign(dot(normal, p - onLine))")
+
+_P_PENALTY_LOOP = """
+def compute_edge_penalty_contact_energy(levelset, mesh, dispField, quadRule, edge, stiffness):
+    index = Surface.get_field_index(edge, mesh.conns)
+    X = Surface.eval_field(mesh.coords, index)
+    x = X + Surface.eval_field(dispField, index)
+    phi = levelset(QuadratureRule.eval_at_iso_points(quadRule.xigauss, x))
+    length = np.sqrt(np.sum((X[1] - X[0])**2))
+    energy = 0.0
+    for q in range(quadRule.wgauss.shape[0]):
+        energy += quadRule.wgauss[q] * np.minimum(phi[q], 0.0)**2
+    return stiffness * length * energy
+"""
+
+_P_LEVELSET_CLASS = """
+class _DeformedEdge(NamedTuple):
+    reference: object
+    current: object
+
+    @property
+    def tangent(self):
+        return self.current[1] - self.current[0]
+
+    def points(self, xi):
+        return self.current[0] + np.outer(xi, self.tangent)
+
+
+def _deformed_edge(mesh, dispField, edge):
+    index = Surface.get_field_index(edge, mesh.conns)
+    reference = Surface.eval_field(mesh.coords, index)
+    return _DeformedEdge(reference=reference, current=reference + Surface.eval_field(dispField, index))
+
+
+def compute_edge_levelset_constraints(levelset, mesh, dispField, quadRule, edge):
+    return levelset(_deformed_edge(mesh, dispField, edge).points(quadRule.xigauss))
+"""
+
+_P_MORTAR_FORI = """
+def integrate_with_active_mortar(xiA, xiB, g, lengthA, lengthB, func_of_xiA_xiB_g, relativeSmoothingSize):
+    rule = QuadratureRule.create_quadrature_rule_1D(degree=2)
+    sA = smooth_linear(xiA, relativeSmoothingSize)
+    sB = smooth_linear(l=relativeSmoothingSize, xi=xiB)
+    scale = 0.5*(lengthA*(sA[1] - sA[0]) + lengthB*jnp.abs(sB[1] - sB[0]))
+
+    def add_point(q, total):
+        xi = rule.xigauss[q]
+        value = func_of_xiA_xiB_g(eval_linear_field_on_edge(xiA, xi), eval_linear_field_on_edge(xiB, xi), eval_linear_field_on_edge(g, xi))
+        return total + rule.wgauss[q]*value
+
+    return scale*jax.lax.fori_loop(0, rule.wgauss.shape[0], add_point, 0.0)
+"""
+
+_P_ASSEMBLY_LOOP = """
+def assembly_mortar_integral(coords, disp, segmentConnsA, segmentConnsB, neighborList,
+                             f_average_normal : Callable,
+                             f_integrand : Callable):
+    current = coords + disp
+    weights = (lambda xiA, xiB, gap: f_integrand(gap) * (1.0-xiA), lambda xiA, xiB, gap: f_integrand(gap) * xiA)
+
+    def nodal_pair(segB, indexA):
+        return jnp.array([integrate_with_mortar(current[segB], current[segmentConnsA[indexA]], f_average_normal, w, 1e-9) for w in weights])
+
+    def nodal(segB, neighbors):
+        return jnp.sum(jax.vmap(nodal_pair, (None, 0))(segB, neighbors), axis=0)
+
+    contributions = jax.vmap(nodal)(segmentConnsB, neighborList)
+    field = jnp.zeros(disp.shape[0])
+    for local in range(2):
+        field = field.at[segmentConnsB[:, local]].add(contributions[:, local])
+    return field
+"""
+
+_B_ASSEMBLY_LOOP = _P_ASSEMBLY_LOOP.replace("field.at[segmentConnsB[:, local]]", "field.at[segmentConnsB[:, 1 - local]]")
+
+
+_P_CPP_DISTANCE_COND = """
+def cpp_distance(edge, p):
+    norm = Surface.compute_normal(edge)
+    cppPoint, t = cpp_line(edge, p)
+    dist = dot(norm, p-cppPoint)
+    sgn = np.where(dist < 0, -1.0, 1.0)
+    outside = lambda end: (lambda: sgn*np.sqrt(norm_squared(end - p)))
+    return lax.cond(t < 0., outside(edge[0]), lambda: lax.cond(t > 1., outside(edge[1]), lambda: dist))
+"""
+
+_P_LEVELSET_RENAMED_PARAMS = """
+def evaluate_levelset_on_edge(obstacle, mesh, U, rule, edge):
+    return obstacle(get_current_coordinates_at_quadrature_points(mesh, U, rule, edge))
+"""
+
+
+_P_CLOSEST_EDGES_FUSED = """
+def compute_closest_edges_and_field_weights(mesh, disp, quadRule, interactionList, surfaceI):
+    side_coords = partial(get_side_coordinates, mesh, disp)
+
+    def on_integration_edge(candidates, edgeI):
+        points = QuadratureRule.eval_at_iso_points(quadRule.xigauss, side_coords(edgeI))
+        candidateCoords = vmap(side_coords)(candidates)
+
+        def at_point(point):
+            distances = vmap(EdgeCpp.cpp_distance, (0, None))(candidateCoords, point)
+            best = np.argsort(np.abs(distances))[0]
+            return candidates[best], EdgeCpp.cpp_line(candidateCoords[best], point)[1]
+
+        return vmap(at_point)(points)
+
+    return vmap(on_integration_edge)(interactionList, surfaceI)
+"""
+
+_B_CLOSEST_EDGES_FUSED = _P_CLOSEST_EDGES_FUSED.replace("np.argsort(np.abs(distances))[0]", "np.argsort(distances)[0]")
+
+
+_P_MORTAR_SCAN = """
+def integrate_with_active_mortar(xiA, xiB, g, lengthA, lengthB, func_of_xiA_xiB_g, relativeSmoothingSize):
+    edgeQuad = QuadratureRule.create_quadrature_rule_1D(degree=2)
+
+    def extent(xi):
+        smoothed = smooth_linear(xi, relativeSmoothingSize)
+        return smoothed[1] - smoothed[0]
+
+    overlap = 0.5*(lengthA*extent(xiA) + lengthB*jnp.maximum(extent(xiB), -extent(xiB)))
+
+    def add_point(total, point):
+        xiQ, wQ = point
+        value = func_of_xiA_xiB_g(xiA[0] + xiQ*(xiA[1] - xiA[0]), xiB[0] + xiQ*(xiB[1] - xiB[0]), g[0] + xiQ*(g[1] - g[0]))
+        return total + wQ*value, None
+
+    unit, _ = jax.lax.scan(add_point, jnp.zeros(()), (jnp.asarray(edgeQuad.xigauss), jnp.asarray(edgeQuad.wgauss)))
+    return overlap*unit
+"""
+
+_B_MORTAR_SCAN = _P_MORTAR_SCAN.replace("g[0] + xiQ*(g[1] - g[0])", "g[1] + xiQ*(g[0] - g[1])")
+
+
+def _replace_def(name, new_text):
+    """edit: replace the whole top-level function `name` by `new_text` (which may define helpers as well)"""
+    def f(src):
+        try:
+            tree = ast.parse(src)
+        except SyntaxError:
+            return None
+        node = [st for st in tree.body if isinstance(st, ast.FunctionDef) and st.name == name]
+        if len(node) != 1:
+            return None
+        lines = src.split("\n")
+        return "\n".join(lines[:node[0].lineno - 1] + new_text.strip("\n").split("\n") + [""] + lines[node[0].end_lineno:])
+    return f
+
+
+def _more_variants(Variant, sub, sub_in_func, E, M, P, L, S_, C):
+    T5, T6, T13, T8, TA, TW = ("O2/T5-closest-point", "O2/T6-closest-by-absolute-distance", "O3/T13-deformed-sample-points", "O3/T8-penalty-integrand",
+                               "O4/T5-mortar-assembly-pairing", "O4/T5-mortar-weights")
+    return [
+        # ---- preserving restructurings
+        Variant("cpp: clip of an extracted line parameter", E, _replace_def("cpp", _P_CPP_CLIP), None),
+        Variant("cpp_distance: select over end-point distances from a vmapped norm", E, _replace_def("cpp_distance", _P_CPP_DISTANCE_SELECT), None),
+        Variant("cpp_distance: helper, keywords, nested where with non-strict tests", E, _replace_def("cpp_distance", _P_CPP_DISTANCE_GUARDS), None),
+        Variant("penalty energy: vectorised interpolation, where instead of minimum", P, _replace_def("compute_edge_penalty_contact_energy", _P_PENALTY_VECTORISED), None),
+        Variant("penalty total: closure and array method sum", P, _replace_def("compute_total_penalty_contact_energy", _P_PENALTY_TOTAL_CLOSURE), None),
+        Variant("level-set constraints: dictionary of edge fields", L, _replace_def("compute_edge_levelset_constraints", _P_LEVELSET_DICT), None),
+        Variant("active mortar integral: measure helper, stacked fields, outer products", M, _replace_def("integrate_with_active_mortar", _P_MORTAR_ACTIVE), None),
+        Variant("mortar assembly: flat scatter, shape functions from a dictionary, partial", M, _replace_def("assembly_mortar_integral", _P_ASSEMBLY_FLAT), None),
+        Variant("closest distance: argmin of squares, lambda", C, _replace_def("get_closest_distance", _P_CLOSEST_SQUARED), None),
+        Variant("two closest edges: two masked argmins", C, _replace_def("get_closest_two_edges", _P_TWO_CLOSEST), None),
+        Variant("quadrature points by outer product", "optimism/QuadratureRule.py",
+                sub("    fields = np.array([field[0,:] + (field[1,:]-field[0,:]) * xi for xi in xigauss])", "    fields = field[0] + np.outer(xigauss, field[1] - field[0])"), None),
+        Variant("integrate_values: einsum and unpacked rule", S_, _replace_def("integrate_values", "def integrate_values(quadratureRule, coords, gaussField):\n"
+                "    weights = quadratureRule.wgauss\n    d = coords[1] - coords[0]\n    return np.sqrt(d @ d) * np.einsum('q,q->', weights, gaussField)\n"), None),
+        Variant("cpp_distance: side * norm of (p - clamped closest point)", E, _replace_def("cpp_distance", _P_CPP_DISTANCE_NORM), None),
+        Variant("penalty energy: python loop over the quadrature points, length by sqrt of a sum", P, _replace_def("compute_edge_penalty_contact_energy", _P_PENALTY_LOOP), None),
+        Variant("level-set constraints: NamedTuple class with a property and a method", L,
+                lambda src: _replace_def("compute_edge_levelset_constraints", _P_LEVELSET_CLASS)(src.replace("from optimism import Mesh\n", "from typing import NamedTuple\nfrom optimism import Mesh\n", 1)), None),
+        Variant("active mortar integral: fori_loop accumulation, keywords", M, _replace_def("integrate_with_active_mortar", _P_MORTAR_FORI), None),
+        Variant("mortar assembly: current coordinates first, python loop over the local nodes", M, _replace_def("assembly_mortar_integral", _P_ASSEMBLY_LOOP), None),
+        Variant("field index: both local nodes at once", S_, sub_in_func("get_field_index", "    return elemConns, np.array([n1,n2])", "    return elemConns, (n1 + np.arange(2)) % 3"), None),
+        Variant("eval_field by take", S_, sub_in_func("eval_field", "    return field[fieldIndex[0]][fieldIndex[1]]", "    return np.take(np.take(field, fieldIndex[0], axis=0), fieldIndex[1], axis=0)"), None),
+        Variant("normal by a rotation matrix", S_, _replace_def("compute_normal", "def compute_normal(edgeCoords):\n    t = edgeCoords[1] - edgeCoords[0]\n"
+                "    n = np.array([[0., 1.], [-1., 0.]]) @ t\n    return n / np.sqrt(n @ n)\n"), None),
+        Variant("cpp_distance: nested lax.cond with thunks", E, _replace_def("cpp_distance", _P_CPP_DISTANCE_COND), None),
+        Variant("evaluate_levelset_on_edge: parameters renamed, delegating", P, _replace_def("evaluate_levelset_on_edge", _P_LEVELSET_RENAMED_PARAMS), None),
+        Variant("closest edges and weights in one fused pass (partial, nested vmaps, argsort)", C, _replace_def("compute_closest_edges_and_field_weights", _P_CLOSEST_EDGES_FUSED), None),
+        Variant("active mortar integral: scan over (point, weight) pairs, |x| as max(x, -x)", M, _replace_def("integrate_with_active_mortar", _P_MORTAR_SCAN), None),
+        Variant("mortar assembly: first-node share as the plain integral minus the second-node share", M,
+                sub("            gapAreaLeft = integrate_with_mortar(coordsSegB, coordsSegA, f_average_normal, lambda xiA, xiB, gap: f_integrand(gap) * (1.0-xiA), 1e-9)\n"
+                    "            gapAreaRight = integrate_with_mortar(coordsSegB, coordsSegA, f_average_normal, lambda xiA, xiB, gap: f_integrand(gap) * xiA, 1e-9)\n"
+                    "            return gapAreaLeft, gapAreaRight",
+                    "            gapArea = integrate_with_mortar(coordsSegB, coordsSegA, f_average_normal, lambda xiA, xiB, gap: f_integrand(gap), 1e-9)\n"
+                    "            gapAreaRight = integrate_with_mortar(coordsSegB, coordsSegA, f_average_normal, lambda xiA, xiB, gap: f_integrand(gap) * xiA, 1e-9)\n"
+                    "            return gapArea - gapAreaRight, gapAreaRight"), None),
+        # ---- breaking edits
+        Variant("scan-based mortar integral with the gap interpolated backwards", M, _replace_def("integrate_with_active_mortar", _B_MORTAR_SCAN), TW),
+        Variant("first-node share not reduced by the second-node share", M,
+                sub("            return gapAreaLeft, gapAreaRight", "            return gapAreaLeft + gapAreaRight, gapAreaRight"), TA),
+        Variant("fused closest-edge pass ranking signed distances", C, _replace_def("compute_closest_edges_and_field_weights", _B_CLOSEST_EDGES_FUSED), T6),
+        Variant("side * norm form without the zero-sign rule", E, _replace_def("cpp_distance", _B_CPP_DISTANCE_NORM_SIGN0), T5),
+        Variant("looped assembly scattering to the opposite local node", M, _replace_def("assembly_mortar_integral", _B_ASSEMBLY_LOOP), TA),
+        Variant("refactored cpp_distance with the end points swapped", E, _replace_def("cpp_distance", _B_CPP_DISTANCE_SELECT), T5),
+        Variant("clamp starts slightly too late", E, sub_in_func("cpp", "    t = np.where(t > 1., 1.0, t)", "    t = np.where(t > 1.01, 1.0, t)"), T5),
+        Variant("clamp starts too late", E, sub_in_func("cpp", "    t = np.where(t > 1., 1.0, t)", "    t = np.where(t > 1.5, 1.0, t)"), T5),
+        Variant("end-point branch starts too early", E, sub_in_func("cpp_distance", "    dist = np.where(t < 0., np.sqrt", "    dist = np.where(t < 0.25, np.sqrt"), T5),
+        Variant("refactored penalty with the current edge length", P, _replace_def("compute_edge_penalty_contact_energy", _B_PENALTY_CURRENT_LENGTH), T8),
+        Variant("refactored penalty with the wrong second node", P, _replace_def("compute_edge_penalty_contact_energy", _B_PENALTY_WRAP), T13),
+        Variant("refactored active mortar integral with |.| on side A", M, _replace_def("integrate_with_active_mortar", _B_MORTAR_ACTIVE_ABS_A), TW),
+        Variant("refactored active mortar integral with a one-point rule", M, _replace_def("integrate_with_active_mortar", _B_MORTAR_ACTIVE_DEGREE), TW),
+        Variant("refactored active mortar integral: gap interpolated from xiB", M, _replace_def("integrate_with_active_mortar", _B_MORTAR_ACTIVE_G), TW),
+        Variant("refactored assembly with swapped shape functions", M, _replace_def("assembly_mortar_integral", _B_ASSEMBLY_FLAT_SWAPPED), TA),
+        Variant("refactored assembly on the undeformed B segment", M, _replace_def("assembly_mortar_integral", _B_ASSEMBLY_FLAT_UNDEFORMED), TA),
+        Variant("closest distance by signed distance", C, sub("    i = np.argmin( np.abs(cppDists) )\n    return cppDists[i]", "    i = np.argmin( cppDists )\n    return cppDists[i]"), T6),
+        Variant("two closest edges by signed distance", C, sub("    sortedIndices = np.argsort( np.abs(cppDists) )", "    sortedIndices = np.argsort( cppDists )"), T6),
+        Variant("second node of an edge off by one", S_, sub_in_func("get_field_index", "    n2 = (n1+1)%3", "    n2 = (n1+2)%3"), T13),
+        Variant("totals evaluate the constraints without the displacement", P, sub_in_func("evaluate_contact_constraints", "(levelset, mesh, dispField, quadRule, edges)", "(levelset, mesh, 0.0*dispField, quadRule, edges)"), T13),
     ]
